@@ -12,2183 +12,918 @@ Definition show_fres (r : fres) : string :=
   end.
 Definition check (rs : list rune) : string := digest (show_fres (format_res rs)).
 Definition full (rs : list rune) : string := show_fres (format_res rs).
-Eval vm_compute in ("<<<M1076>>>" ++ check (runes_of_ascii "  packet a1 {} options{len= ""a\""b"" ;
-} options
-{Header =
-    '\x00' // " ++ [128512]%N ++ runes_of_ascii " emoji
-; BodyLength=
-uint8 ; } packet Foo {
-    @lengthOf(
-// " ++ [27880; 37322]%N ++ runes_of_ascii "
-// trailing space 
-a1) packetx{ a1 @calculatedFrom(
-""\n"" ) , asx{	repeat char[ 3
-]
-roots`` , repeat string_	{
-string a1 @calculatedFrom(""// no comment"" ) `// not a comment`, uint8 charz, string_ ,}	, string	_x `line1
-line2` ,
-    repeat char[] float `{ , }`  ,
-    }
-    , MetaDataX , },Packet
-, char[
-    0123456789] string_
-    `say ""hi""` , @lengthOf( stringy
-    ) @tag( 65535 ) @leftPad // a // b
-( '0'
-) match
-    chars as
-u8x { // packet A { u8 x, }
-0123456789 :Packet,
-0 : u , [ """ ++ [128512]%N ++ runes_of_ascii """	]
-: matchKey
-    // @lengthOf(
-    , 0123456789 : // trailing space 
-len , //	t
-""a\\""
-    : As,0123456789  :
-x_y_z , },match
-    // packet A { u8 x, }
-    msg_type
-    as metadata {	0123456789
-    :
-chars //
-, // " ++ [27880; 37322]%N ++ runes_of_ascii "
-65535  :	calculatedFrom
-,// a // b
-""packet"" : charz ,// trailing space 
-}
-, @tag( 10) repeat i8i8 falsey	`{ , }` ,
-@tag(
-    3) match repeatCount as zchar{ 10 : calculatedFrom // c
-} , match//x
-Logon as
-/// triple
-// trailing space 
-falsey
-    { ""a\""b"" : packetx,  } ,@lengthOf(
-zchar )repeat zchar[ 00 // `tick` ""quote"" 'q'
-]body	,
-    repeat char[ 00
-//
-// trailing space 
-]
-len
-    , } packet
-    uint8x
-{ @lengthOf( float ) @calculatedFrom( ""\n""
-)
-match zchar as BodyLength
-    { 10 :Pad
-    //x
-    ,} ,
-    @lengthOf( charz)	f32 stringy
-`line1
-line2` , crc { u64 BodyLength@lengthOf( calculatedFrom )
-,char[ // @lengthOf(
-00 ] msg_type
-    /// triple
-    @lengthOf( Logon ) , /// triple
-} ,
-    i16 MetaDataX`
-`
-,
-@calculatedFrom( ""x y"" ) match roots as leftPad
-{ ""\n"" : rootA , [ ""x y""
-, 0123456789 , 0
-,65535,
-    ""x y""  ,
-    ""abc"" ]:pack  ,  0 : float ,
-    } , @lengthOf(lengthOf
-) @lengthOf( f32a
-) i32
-// packet A { u8 x, }
-// trailing space 
-matchKey @lengthOf(len
-)
-, u8 Z9_ // " ++ [128512]%N ++ runes_of_ascii " emoji
-@calculatedFrom( ""packet""
-    )`it's` ,
-@lengthOf( float
-) repeat i8i8 `crlf
-line` , @tag( 0123456789 ) repeat
-i8
-    matchKey `two words`, @leftPad
-(
-' '// a // b
-) string metadata @calculatedFrom(  ""it's"" ) , }
-
-")).
-Eval vm_compute in ("<<<M1094>>>" ++ check (runes_of_ascii "packet/// triple
-u128 {@calculatedFrom(
-""" ++ [128512]%N ++ runes_of_ascii """ )
-/// triple
-// c
-i64 charz `tab	here` ,
-    @lengthOf(
-Header ) float32 a1@calculatedFrom(""" ++ [128512]%N ++ runes_of_ascii """) , repeat string a1
-`it's`
-    , @tag( 42
-) @tag(
-7 )zchar stringy ,
-float32	calculatedFrom `
-`,} MetaData x{ // " ++ [27880; 37322]%N ++ runes_of_ascii "
-Header x_y_z`
-` ,int64
-options1
-`it's`, char[]
-chars, u16 options1
-,u16 calculatedFrom `tab	here` // `tick` ""quote"" 'q'
-, char[	0123456789 ] u , } root packet uint8x { @rightPad (	'\x00')
-    char[	7]asx , int64
-Pad @lengthOf(
-As)`crlf
-line`, msg_type  @calculatedFrom(
-    ""`tick`"" ) ,
-@calculatedFrom(// a // b
-""a\\"" ) @rightPad ( ' '
-    )repeatCount	`line1
-line2`
-, @tag(3 ) int32 As `two words`
-,@tag( 1) @calculatedFrom( ""`tick`""  ) @lengthOf( f32a )match zchar
-as u {0123456789: leftPad	""\" ++ [233]%N ++ runes_of_ascii """:  _x  , 7 : MetaDataX
-, [ 4294967296 ]
-:	stringy, 7:uint8x } ,@leftPad (
-    ) string Foo
-@lengthOf(MetaDataX ) ``, //
-match calculatedFrom as A
-{ [ 255
-, 7 ,
-1
-, //x
-1
-    , 42,007 ,
-007
-    ]: A , [// `tick` ""quote"" 'q'
-""a\\"",	""it's"",""1""
-,	00 ,
-    """ ++ [128512]%N ++ runes_of_ascii """,
-""{,}"" ,
-42]
-:
-    calculatedFrom	, ""it's""	:
-    f32a ,
-},
-repeat char[]
-i8i8,  leftPad
-    ,
-} packet _x { char[] Z9_  ,
-int64 options1
-    @calculatedFrom( """"// trailing space 
-)`u8 x,`
-,
-    // `tick` ""quote"" 'q'
-    @calculatedFrom( ""// no comment"" ) match tag
-    as roots { [ // packet A { u8 x, }
-""abc"" ] : options1	65535: o,	""// no comment"" : f32a// c
-,""packet""
-:uint8x ,  } ,  leftPad@calculatedFrom(""" ++ [233]%N ++ runes_of_ascii "t" ++ [233]%N ++ runes_of_ascii """ ) ,
-    repeat x
-    ,zchar[ 65535
-] float `line1
-line2` , i16 uint8x,	zchar[ 10
-] uint8x // packet A { u8 x, }
-,
-@calculatedFrom(""abc"") repeat	x
-{ trueish
-    `tab	here`
-,
-}	, @tag( 1
-) char[ 3 ]
-// packet A { u8 x, }
-// a // b
-metadata`say ""hi""` , }
-")).
-Eval vm_compute in ("<<<M4039>>>" ++ check (runes_of_ascii "
-packet
-options1
-{ /// triple
-      string
-falsey`doc`
-
-    ,  float//
-      BodyLength
-,
-@tag( 65535
-    )
-	Logon
-
-@calculatedFrom( ""a	b"" )	,
-repeat matchKey
-	_x
-`u8 x,` ,  // `tick` ""quote"" 'q'
-
-	repeat  tag {
-repeat u8 trueish `a\`
-    ,char[]
-        // a // b
-    u8x @calculatedFrom(""it's""
-
-    )
-,
-
-    },match	i64_ as
-
-BodyLength 	 //x
-	  {
-
-""" ++ [28040; 24687]%N ++ runes_of_ascii """
-	:
-
-T 
-, 
-[
-""packet"" ]  // " ++ [128512]%N ++ runes_of_ascii " emoji
-	:
-
-    x_y_z , 
-""a\""b""
-:
-A 
-,
-
-65535
-:
-	asx[  //	t
-
-""\n""
-	,	0123456789 , 
-0
-,
-
-    0123456789 ] : charz	//
-    [  ""{,}""
-
-    ,
-""a\\""
-	, // @lengthOf(
-      255  ,
-    10
-, 1
-,
-""\" ++ [233]%N ++ runes_of_ascii """
-,
-
-    10 ]
-
-    :  metadata  ,
-    } ,	repeat string 
-x_y_z,
-
-    //
-	/// triple
-    match i8i8
-as
-
-    len 
-// @lengthOf(
-  {
-	""\n""  : 
-u8x 
-, 0123456789 :
-
-int
-
-, 10// " ++ [128512]%N ++ runes_of_ascii " emoji
-	:roots
-	, }
-
-    ,	rootA
-	, 
-@tag( // " ++ [27880; 37322]%N ++ runes_of_ascii "
-	3)
-
-rootA  @lengthOf(f32a) 	 // c
-
-, 
-// trailing space 
-
-  }
-
-packet 
-options1{
-    @calculatedFrom(""" ++ [128512]%N ++ runes_of_ascii """
-	)
-
-    i8i8  //
-      @lengthOf(	Logon)
-,
-	    // @lengthOf(
-// `tick` ""quote"" 'q'
-    float32 chars
-
-    `tab	here`
-
-    ,  @leftPad  (  '0'  )
-	@tag( 3 )  @calculatedFrom(
-""""// trailing space 
-    )	matchKey  @calculatedFrom(  // packet A { u8 x, }
-	""" ++ [233]%N ++ runes_of_ascii "t" ++ [233]%N ++ runes_of_ascii """
-
-    ) , repeat
-    uint16
-u``
-,
-@rightPad 
-(/// triple
-
-)	rootA ,@leftPad
-
-    (
-    // a // b
-  '0'
-) // @lengthOf(
-
-  _x 
-  // trailing space 
-
-//	t
-Z9_
-, char[ 0123456789
-]	packetx
-
-`crlf
-line` 
-, }
-")).
-Eval vm_compute in ("<<<M4007>>>" ++ check (runes_of_ascii "
-root
-    packet
-msg_type
-	{ 
-u128//
-, @calculatedFrom( """ ++ [233]%N ++ runes_of_ascii "t" ++ [233]%N ++ runes_of_ascii """ )
-repeat
-char[ 
-
-    //
-		3	]
-
-    metadata  `crlf
-line`
-,
-char[255 ]
-
-    Pad,asx @calculatedFrom( ""packet"" )
-
-,repeat
-    stringy
-
-    `tab	here`,
-	//x
-  //	t
-
-repeat //x
-As
-    `two words` ,@leftPad(
-
-    '\x00'
-) repeat matchKey
-`a\`
-,
-
-@rightPad (' '	) 
-repeat  /// triple
-    Pad {	repeat u
-    , 
-      // trailing space 
-// packet A { u8 x, }
-repeat char[]uint8x 
-, 
-}	,u128
-
-    {  repeat
-
-    As
-
-    `u8 x,`
-,pack
-
-msg_type
-
-    , uint32	lengthOf
-    @calculatedFrom(	""1""  )
-,
-match
-    roots
-as 
-        // " ++ [128512]%N ++ runes_of_ascii " emoji
-	x	{ ""{,}""	:
-// " ++ [27880; 37322]%N ++ runes_of_ascii "
-	Pad
-	}
-, }
-
-,
-
-    } root packet tag
-{
-
-string pack
-    ,
-
-    }	root
-
-packet u8x	{	string
-    pack 
-`doc` ,	@lengthOf(
-options1)f32	matchKey
-@calculatedFrom(
-""`tick`""
-    ) `two words`
-    ,
-
-    @leftPad ( '\x00'
-    )	@lengthOf( Packet)
-@tag( 007	//x
-  ) int32 
-Pad
-
-    @calculatedFrom( ""a\\""  )
-, @calculatedFrom( """"
-    )
-    string
-a1 @lengthOf(	metadata
-)
-,
-
-    match
-u128
-    as
-
-Foo{[
-    ""`tick`""	]
-    :msg_type	,10 // a // b
-	: msg_type ,
-
-00
-	:
-	len , ""`tick`"" :
-_x
-
-,  1: repeatCount, [
-    1  , 	 //	t
-		1  ]
-
-:
-        // packet A { u8 x, }
-pack
-,
-
-    } 
-, @leftPad (  ) float64
-    pack  `
-` ,
-
-    }
-")).
-Eval vm_compute in ("<<<M534>>>" ++ check (runes_of_ascii "  packet roots
-    {
-@lengthOf(
-    a1
-)
-    //x
-    uint32 stringy `it's` ,
-@tag( 0  ) string a1
-//	t
-//x
-,match len as zchar {
-    // @lengthOf(
-    42 : lengthOf ,""" ++ [233]%N ++ runes_of_ascii "t" ++ [233]%N ++ runes_of_ascii """ : len """"
-: Z9_
-    ,} ,  @calculatedFrom(
-    ""{,}""  ) // " ++ [128512]%N ++ runes_of_ascii " emoji
-@tag(
-    42 )rootA @lengthOf( repeatCount ) `" ++ [233]%N ++ runes_of_ascii "` // `tick` ""quote"" 'q'
-,  BodyLength
-    {
-    f64 tag `u8 x,`
-    ,
-    //
-    }	,	zchar[
-255 ]
-f32a `
-` , @lengthOf( rootA )
-a1 , @calculatedFrom( """ ++ [28040; 24687]%N ++ runes_of_ascii """ ) repeat u32  As `doc` ,	} packet o
-{ repeat uint8
-    A ,
-    }MetaData u128{ int64 //	t
-x_y_z `doc` , }options { asx // @lengthOf(
-= 65535
-; metadata //
-= u32; pack = zchar[
-    0123456789 ] }root
-packet
-lengthOf
-{
-@leftPad( '0' )
-    @calculatedFrom(
-// " ++ [27880; 37322]%N ++ runes_of_ascii "
-//x
-""it's"" ) int@calculatedFrom( ""`tick`"")
-,i32 len
-, @leftPad
-( '\x00'
-    )repeat	char[]falsey , @tag( 255
-)
-i32
-lengthOf
-    @lengthOf( MetaDataX )  , match int as A { 10
-:
-body ,	""abc"" :
-    a1
-,  }, metadata `a\`, int32 uint8x @lengthOf( repeatCount )
-    ,@leftPad( )crc  body
-,
-    repeat
-T
-{
-    // " ++ [128512]%N ++ runes_of_ascii " emoji
-    float64 x,
-char[] tag
-    // trailing space 
-    `say ""hi""`  , repeat Header { char[] string_ `say ""hi""`  ,Z9_
-, }
-, // " ++ [128512]%N ++ runes_of_ascii " emoji
-}
-    //x
-    ,	}
-")).
-Eval vm_compute in ("<<<M3889>>>" ++ check (runes_of_ascii "
-
-  root packet MetaDataX
-
-    { }
-options {
-	matchKey
-
-=
-
-""abc"" ;i64_
-    = 	 // a // b
-	7
-	;
-len	= 1
-
-    x_y_z
-
-    =  //x
-
-  '0'
-;}
-
-    options { 
-A =
-	7
-len
-    // a // b
-	//x
-  =
-	zchar[  4294967296
-	]
-; o
-=
-
-string
-    ; 
-int
-
-=
-false
-
-    f32a
-
-=	// trailing space 
-  ""CRC32"" ;
-}  root  packet crc 
-        // " ++ [27880; 37322]%N ++ runes_of_ascii "
-  	{char[]
-string_,
-match  i8i8	// c
-as tag	{	//x
-3
-	:
-packetx
-    }
-	, @rightPad(
-' '
-
-)
-repeat _x 
-// packet A { u8 x, }
-//x
-    { a1	trueish
-`// not a comment`
-, } ,
-	int16// packet A { u8 x, }
-  Z9_ ,
-@lengthOf( uint8x
-
-    // @lengthOf(
-	) 
-	// `tick` ""quote"" 'q'
-	// `tick` ""quote"" 'q'
-	  zchar[  
-      // " ++ [128512]%N ++ runes_of_ascii " emoji
-      4294967296
-] A@lengthOf( 
-i64_ )  //	t
-	`two words`
-    ,  repeat // " ++ [27880; 37322]%N ++ runes_of_ascii "
-  uint64
-
-metadata 
-,
-@calculatedFrom( ""packet""
-
-    )
-
-    string 
-    //x
-	//	t
-
-x `it's`,
-	match
-
-    T
-
-as
-
-asx
-// " ++ [27880; 37322]%N ++ runes_of_ascii "
-	//	t
-{
-
-    ""abc""
-
-: A
-
-    ,
-""it's"":Logon
-
-    ,
-} , // packet A { u8 x, }
-
-@calculatedFrom(
-    //
-	// a // b
-	""\n"") string
-	_x
-
-    ,  uint64	zchar@lengthOf(
-
-    lengthOf
-
-)
-, } 
-packet uint8x
-	{  }	// a // b
- 
-")).
-Eval vm_compute in ("<<<M507>>>" ++ check (runes_of_ascii "
-packet _x { repeat o int , match
-int
-    as Logon{
-""packet"" :
-// a // b
-// packet A { u8 x, }
-string_ },
-@leftPad ( '0'
-) zchar[
-1 ] asx , }// @lengthOf(
-packet leftPad { }	root
-packet i8i8{
-    @calculatedFrom(""it's"" ) _x
-    len// " ++ [27880; 37322]%N ++ runes_of_ascii "
-`crlf
-line`, } root
-    packet rootA { char[]
-    rootA @lengthOf( leftPad
-    )`u8 x,` , match
-falsey
-as calculatedFrom {42:
-    Foo }
-,
-    repeat Z9_
-    {
-    uint16 _x// " ++ [128512]%N ++ runes_of_ascii " emoji
-`doc` , zchar[ // `tick` ""quote"" 'q'
-42// " ++ [128512]%N ++ runes_of_ascii " emoji
-]
-u8x ,repeat
-zchar[
-// @lengthOf(
-// c
-42
-/// triple
-// " ++ [27880; 37322]%N ++ runes_of_ascii "
-]Z9_	`// not a comment`, } // trailing space 
-,
-string//
-T,u8x i8i8, @calculatedFrom( ""CRC32"")  u64 zchar,
-//
-// " ++ [128512]%N ++ runes_of_ascii " emoji
-}
-packet Packet {repeat
-    Z9_ int ,
-int16 asx`// not a comment`
-,@lengthOf(	options1
-)
-repeat int8
-    As`" ++ [233]%N ++ runes_of_ascii "`// @lengthOf(
-, @leftPad ( '\x00'
-// " ++ [27880; 37322]%N ++ runes_of_ascii "
-//	t
-)
-o { repeat
-    //
-    rootA
-`crlf
-line`
-    //x
-    ,
-    Packet, }  , @calculatedFrom( ""`tick`""
-    //
-    ) @lengthOf( T
-)
-    //	t
-    repeatCount
-_x  ,
-_x{ i16 x_y_z @lengthOf(a1
-) `
-`,}
-// packet A { u8 x, }
-//
-,
-    }")).
-Eval vm_compute in ("<<<M3508>>>" ++ check (runes_of_ascii "options {
-    // c1
-LittleEndian // c2
-= // c3a
+Eval vm_compute in ("<<<M1439>>>" ++ check (runes_of_ascii "options { // c1
+LittleEndian = // c3a
   // c3b
-false ; // c5a
-  // c5b
-StringPrefixLenType // c6
-=
-    // c7
-u32
-    // c8
-; // c9a
+false
+    // c4
+;
+    // c5
+StringPrefixLenType // c6a
+  // c6b
+= u16 ; // c9a
   // c9b
-ArrayPrefixLenType // c10
-= // c11
-u16
-    // c12
+ArrayPrefixLenType // c10a
+  // c10b
+=
+    // c11
+u32 // c12
 ; // c13
 } // c14a
   // c14b
-packet // c15
-Party {
-    // c17
-@leftPad // c18a
+packet Order
+    // c16
+{ // c17a
+  // c17b
+uint8 // c18a
   // c18b
-(
-    // c19
-'0'
+x // c19a
+  // c19b
+,
     // c20
-) // c21
-char[ 12 // c23a
-  // c23b
-] // c24a
-  // c24b
-Ref // c25
+repeat string venue , // c24
+} // c25
+packet // c26a
+  // c26b
+Heartbeat // c27
+{ // c28a
+  // c28b
+i64 // c29
+count // c30a
+  // c30b
 ,
-    // c26
-repeat
-    // c27
-char[
-    // c28
-6
-    // c29
-] x , // c32
-}
-    // c33
-packet
-    // c34
-Logon // c35a
-  // c35b
-{ uint32 // c37
-clOrdID , // c39a
-  // c39b
-Party , } // c42
-root
-    // c43
-packet // c44
-Ack
-    // c45
-{ zchar[ 2 // c48a
-  // c48b
-] // c49a
-  // c49b
-f1
-    // c50
-, // c51a
-  // c51b
-u32
-    // c52
-seqNo
-    // c53
-, // c54a
-  // c54b
-u32 Side2
-    // c56
-@lengthOf( Body // c58
-) // c59
-, match seqNo as
-    // c63
-Body {
-    // c65
-43 // c66
-:
-    // c67
-Logon , // c69a
-  // c69b
-93 // c70
-: // c71
-Party // c72a
-  // c72b
-, } // c74
-, // c75a
-  // c75b
-} ")).
-Eval vm_compute in ("<<<M168>>>" ++ check (runes_of_ascii "packet // trailing space 
-crc {	match	trueish
-    as pack {[// trailing space 
-007
-    , ""`tick`""
-    , 42 ,3 ,
-""x y"" ] :
-    // " ++ [128512]%N ++ runes_of_ascii " emoji
-    u128
-, } , // packet A { u8 x, }
-@tag( 255
-)
-    lengthOf
-    // " ++ [128512]%N ++ runes_of_ascii " emoji
-    lengthOf , repeat zchar[ 0123456789]
-    calculatedFrom`" ++ [233]%N ++ runes_of_ascii "` , // trailing space 
-@calculatedFrom(
-""" ++ [28040; 24687]%N ++ runes_of_ascii """ ) repeat/// triple
-f32a ,repeat char[]
-// packet A { u8 x, }
-/// triple
-msg_type
-`u8 x,` ,
-    x @calculatedFrom( ""{,}"" ) , f32 uint8x// packet A { u8 x, }
-`two words`,
-    char[  0 ]
-i8i8 , @calculatedFrom(
-""1"" ) rootA BodyLength,
-repeat string a1 //	t
-, } root// " ++ [128512]%N ++ runes_of_ascii " emoji
-packet
-// c
-// " ++ [27880; 37322]%N ++ runes_of_ascii "
-metadata
-{ @calculatedFrom( ""abc"" ) options1 // trailing space 
-Header ,
-// @lengthOf(
-// " ++ [27880; 37322]%N ++ runes_of_ascii "
-}root
-packet charz{
-repeat stringy ,@tag( 3 // trailing space 
-)
-    Foo x_y_z`{ , }` ,
-    char[
-    1]
-Logon
-@lengthOf( float)
-,	int8
-    int
-    ,
-    } //	t
-packet Packet { char[] zchar
-//x
-// " ++ [128512]%N ++ runes_of_ascii " emoji
-`
-`
-    // c
-    , }
-")).
-Eval vm_compute in ("<<<M3937>>>" ++ check (runes_of_ascii "packet chars {
-}
-
-options {
-    calculatedFrom = i8;
-}
-
-packet x {
-    @tag(255)
-    // `tick` ""quote"" 'q'
-    match u8x as leftPad {
-        [1, ""\n"", ""a\""b""] : stringy,
-    },
-    float @calculatedFrom(""\n"") `
-        `,
-    @calculatedFrom(""{,}"")
-    repeat char[0123456789] Header,
-    body {
-        f32a `" ++ [28040; 24687; 31867; 22411]%N ++ runes_of_ascii "`,
-        char[10] Pad @lengthOf(packetx) `line1
-                line2`,
-        match Header as crc {
-            [7] : roots,
-            4294967296 : Header,
-            255 : crc,
-            00 : Z9_,
-            255 : Z9_,
-            [42, 255] : repeatCount,
-        },
-        leftPad {
-            repeat asx `" ++ [28040; 24687; 31867; 22411]%N ++ runes_of_ascii "`,
-            float,
-        },
-    },
-    @leftPad()
-    @lengthOf(Foo)
-    @calculatedFrom(""abc"")
-    uint64 BodyLength,
-    @tag(65535)
-    i64 u8x `it's`,
-    @tag(0)
-    /// triple
-    crc {
-        zchar[65535] u `tab	here`,
-    },// a // b
-}")).
-Eval vm_compute in ("<<<M1175>>>" ++ check (runes_of_ascii "// a // b
-root packet
-    // trailing space 
-    charz { @tag(007 ) repeat u32
-    chars, Packet
-`doc`
-    , } MetaData rootA // `tick` ""quote"" 'q'
-{  char[ 42 ]Packet
-    `crlf
-line` , }// c
-packet asx
-{repeat  calculatedFrom{
-asx @lengthOf(	chars
-    )  ,repeat string //	t
-x_y_z `line1
-line2`
-, repeat u32  i64_ //	t
-`it's` ,A
-    //x
-    @lengthOf(
-Logon ) `tab	here` , }
-    ,
-uint32
-asx // c
-@lengthOf(
-BodyLength) ,
-// " ++ [27880; 37322]%N ++ runes_of_ascii "
-// " ++ [27880; 37322]%N ++ runes_of_ascii "
-char[ 0123456789 ] calculatedFrom ,repeat Z9_,
-match
-    asx //	t
-as uint8x {// c
-[ ""{,}"",
-    // `tick` ""quote"" 'q'
-    ""it's""
-    , 7 ,""CRC32""
-] :
-msg_type
-    ,
-    [
-    // packet A { u8 x, }
-    1	]// " ++ [128512]%N ++ runes_of_ascii " emoji
-: u8x ""CRC32""
-:  T, }
-    // @lengthOf(
-    ,
-i8
-    charz	@calculatedFrom(
-    ""x y""
-)
-    // `tick` ""quote"" 'q'
-    `" ++ [233]%N ++ runes_of_ascii "` ,
-    }MetaData u8x
-{
-    // " ++ [128512]%N ++ runes_of_ascii " emoji
-    i8 T , }
-")).
-Eval vm_compute in ("<<<M3692>>>" ++ check (runes_of_ascii "packet msg_type {
-    @rightPad('\x00')
-    calculatedFrom chars,
-}
-
-packet string_ {
-}
-
-MetaData o {
-    zchar[65535] a1,
-}
-
-root packet Foo {
-    f32a {
-        // " ++ [128512]%N ++ runes_of_ascii " emoji
-        match len as Packet {
-            [3] : body,
-            7 : o,
-            [00, 0, ""x y"", 42] : u,
-            """ ++ [28040; 24687]%N ++ runes_of_ascii """ : Pad,
-        },
-        i64 A,
-        string u8x,
-        match stringy as As {
-            65535 : i8i8,
-            //x
-            ""CRC32"" : u8x,
-            [
-                ""a\""b"", 7, ""\n"", ""{,}"", 0,
-                42, ""a\""b""
-            ] : MetaDataX,
-            [""abc""] : falsey,
-            // @lengthOf(
-            [""`tick`""] : calculatedFrom,
-        },
-    },
-}// " ++ [128512]%N ++ runes_of_ascii " emoji
-
-options {
-    body = ""CRC32"";
-    body = ""a\""b""
-    u128 = true;
-    BodyLength = 10;
-    leftPad = false;
-}")).
-Eval vm_compute in ("<<<M308>>>" ++ check (runes_of_ascii "root packet options1 //	t
-{ @lengthOf( Packet )
-//x
-//	t
-repeat chars // " ++ [128512]%N ++ runes_of_ascii " emoji
-{ repeatCount
-u128 , match u as
-BodyLength/// triple
-{
-[ 65535 ] :
-// trailing space 
-//x
-packetx // a // b
-,
-3 :
-    zchar ,
-255: roots """ ++ [233]%N ++ runes_of_ascii "t" ++ [233]%N ++ runes_of_ascii """// c
-: Header}
-    , i64 Packet,	char[]	uint8x @calculatedFrom(
-""// no comment""  ) `crlf
-line`
-,
-    } , string
-trueish , @leftPad  (' '  )
-i8i8	{/// triple
-float64
-T @lengthOf( leftPad )
-    ,// @lengthOf(
-u128 `" ++ [233]%N ++ runes_of_ascii "`
-    , lengthOf, // a // b
-matchKey ,
-    },
-    repeat
-    char[1] MetaDataX	`a\`  ,
-// c
-// " ++ [128512]%N ++ runes_of_ascii " emoji
-@calculatedFrom( ""1"" )string chars
-    `it's` , char[] calculatedFrom
-    @lengthOf(
-    calculatedFrom) `doc`, rootA// @lengthOf(
-_x
-// `tick` ""quote"" 'q'
-/// triple
-`" ++ [28040; 24687; 31867; 22411]%N ++ runes_of_ascii "` , } MetaData calculatedFrom {  u tag `
-`,
-}
-")).
-Eval vm_compute in ("<<<M3777>>>" ++ check (runes_of_ascii "
-
-  options{
-} MetaData metadata {
-
-float32 u128 
-`" ++ [28040; 24687; 31867; 22411]%N ++ runes_of_ascii "` 
-,
-
-}
-    packet roots
-
-{
-	i64 uint8x
-
-    `` 
-
-    // `tick` ""quote"" 'q'
-// `tick` ""quote"" 'q'
-    	, 
-@tag(3
-	)  // packet A { u8 x, }
-  @tag(
-0123456789
-)  stringy
-    @lengthOf( Header
-) `u8 x,` , f64
-u //x
-  `tab	here`
-    , match
-    u8x 
-as
-u8x 
-// `tick` ""quote"" 'q'
-	{ 
-10
-: string_,  } 
-, 
-zchar[  7]  u 
-@calculatedFrom( // a // b
-
-""packet""
-)	, @leftPad 
-(
-
-    )repeat
-	asx
-
-_x
-    ,
-zchar[ 	 // `tick` ""quote"" 'q'
-      7]uint8x	, body
-{ repeat
+    // c31
 zchar[
-3]As 
+    // c32
+1 // c33a
+  // c33b
+] // c34
+Qty
+    // c35
+, // c36
+repeat InX29 {
+    // c39
+InSeqno26
+    // c40
+{ // c41a
+  // c41b
+int64
+    // c42
+f1 , char[
+    // c45
+5
+    // c46
+] // c47a
+  // c47b
+Acct
+    // c48
 ,
-string Header,	char[] u
-,
-} ,
-repeat	Logon
-    {repeat
-
-    zchar[ 
-65535]packetx	`// not a comment`, 
+    // c49
+Order , // c51
+} // c52
+, repeat
+    // c54
+InSide285 // c55
+{ // c56
+repeat // c57
+Order // c58
+, // c59
+char[ 10 // c61
+] Px // c63
+, // c64
+zchar[ // c65
+9
+    // c66
+] // c67
+OrderId // c68
+, } // c70
+, // c71a
+  // c71b
+char[] // c72a
+  // c72b
+venue // c73
+, // c74
+Order // c75a
+  // c75b
+, // c76a
+  // c76b
+} // c77a
+  // c77b
+, @rightPad // c79a
+  // c79b
+( '\x00' // c81a
+  // c81b
+) // c82
+char[ // c83a
+  // c83b
+4 ]
+    // c85
+clOrdID // c86
+, // c87
 }
-	,} // packet A { u8 x, }
-	MetaData  msg_type
-    {
-	f64 
-crc `{ , }` ,
-    }
+    // c88
+root // c89
+packet Party // c91a
+  // c91b
+{ // c92a
+  // c92b
+zchar[ // c93a
+  // c93b
+3 // c94a
+  // c94b
+] // c95
+f1 // c96a
+  // c96b
+, // c97a
+  // c97b
+u32 // c98a
+  // c98b
+clOrdID // c99a
+  // c99b
+,
+    // c100
+u32 // c101a
+  // c101b
+Px @lengthOf( Body // c104a
+  // c104b
+) // c105
+, // c106
+match
+    // c107
+clOrdID // c108a
+  // c108b
+as // c109a
+  // c109b
+Body { // c111a
+  // c111b
+[ 180 , 64 ] // c116a
+  // c116b
+: // c117a
+  // c117b
+Heartbeat // c118
+,
+    // c119
+11 // c120
+: // c121a
+  // c121b
+Order // c122
+, } // c124
+, // c125a
+  // c125b
+u32
+    // c126
+Side2 // c127a
+  // c127b
+@calculatedFrom( ""CRC32"" // c129a
+  // c129b
+) // c130
+, // c131
+} ")).
+Eval vm_compute in ("<<<M1732>>>" ++ check (runes_of_ascii "packet x_y_z {
+    packetx {
+        i16 pack `doc`,
+        repeat char[255] leftPad,
+    },
+    u8x,
+    match o as roots {
+        [0123456789] : x_y_z,
+        [""a\\""] : packetx,
+    },
+    repeat charz {
+        int32 i64_ `{ , }`,
+    },
+}
 
-")).
-Eval vm_compute in ("<<<M696>>>" ++ check (runes_of_ascii "
-MetaData
-packetx { }
-    MetaData _x { char[ 255] string_
-, int32	trueish  `u8 x,` ,}
-packet
-    //	t
-    asx{x_y_z, @calculatedFrom( ""it's"" )
-match // a // b
-Pad
-as falsey {
-[ ""`tick`"" ,	7 , """ ++ [28040; 24687]%N ++ runes_of_ascii """
-,
-    """ ++ [233]%N ++ runes_of_ascii "t" ++ [233]%N ++ runes_of_ascii """ , ""a\\""
-,
-// " ++ [27880; 37322]%N ++ runes_of_ascii "
-//x
-3
-,
-    // " ++ [27880; 37322]%N ++ runes_of_ascii "
-    65535 ]:// " ++ [128512]%N ++ runes_of_ascii " emoji
-packetx,
-    // @lengthOf(
-    1
-    :	zchar
-// " ++ [128512]%N ++ runes_of_ascii " emoji
-// " ++ [27880; 37322]%N ++ runes_of_ascii "
-,
-[ ""a\""b"" , 42 ] // a // b
-:f32a , } , @tag(	007 //
+packet x_y_z {
+    @calculatedFrom(""CRC32"")
+    @tag(00)
+    @lengthOf(x)
+    match As as stringy {
+        1 : i64_,
+        // " ++ [27880; 37322]%N ++ runes_of_ascii "
+        [
+            ""it's"", ""1"", ""x y"", 4294967296, ""\n"",
+            ""x y""
+        ] : u128,
+        00 : calculatedFrom,
+        [4294967296, ""// no comment"", 42, 3, ""{,}""] : charz,
+    },
+    @calculatedFrom(""a\\"")
+    Logon A,
+    chars @lengthOf(Logon),
+    @rightPad('0')
+    @tag(0)
+    @rightPad('0')
+    string Foo `a\`,
+}
+
+packet packetx {
+    repeat i64_ {
+        o @lengthOf(A),
+    },
+    @tag(42)
+    repeat char[] crc,
+    @leftPad()
+    u16 roots,
+    falsey @lengthOf(As),
+    repeat Foo {
+        float32 f32a @calculatedFrom(""`tick`""),
+        len `
+        `,
+        // packet A { u8 x, }
+    },
+    @leftPad('\x00')
+    T @calculatedFrom(""a	b"") `" ++ [28040; 24687; 31867; 22411]%N ++ runes_of_ascii "`,
+    char[] trueish `u8 x,`,
+    @lengthOf(falsey)
+    match rootA as BodyLength {
+        // " ++ [128512]%N ++ runes_of_ascii " emoji
+        [""CRC32""] : x,
+        // @lengthOf(
+        // c
+        42 : BodyLength,
+        // trailing space 
+    },
+}")).
+Eval vm_compute in ("<<<M1995>>>" ++ check (runes_of_ascii "// top
+	options
+        // c0
+{
+    // c1
+  chars 
+    // c2
+
+= 
+
+// c3
+    ""a\\"" 
+    // c4
+
+  } 
+// c5
+	packet 
+    // c6
+	  Z9_ 
+// c7
+
+  { 
+        // c8
+match
+    // c9
+    BodyLength 
+    // c10
+		as
+
+    // c11
+	roots
+        // c12
+	{ 
+  // c13
+	""" ++ [28040; 24687]%N ++ runes_of_ascii """ 
+// c14
+  : 
+      // c15
+  falsey 
+
+// c16
+    , 
+    // c17
+      00
+    // c18
+		: 
+    // c19
+  u128 
+// c20
+	0 
+// c21
+	:
+
+    // c22
+  len
+    // c23
+	,  
+      // c24
+    007
+    // c25
+
+  :
+// c26
+f32a 
+// c27
+  } 
+
+    // c28
+	  , 
+      // c29
+	@tag( 
+    // c30
+	  3 
+    // c31
+) 
+	    // c32
+
+	@calculatedFrom(
+
+// c33
+	""`tick`"" 
+	    // c34
 )
-    repeat string
-    len
-`doc`	,@calculatedFrom(
-    ""a\\"" )// `tick` ""quote"" 'q'
-matchKey
-//	t
-// `tick` ""quote"" 'q'
-calculatedFrom `{ , }`, u8x@lengthOf( T )
-`it's`,
-}MetaData packetx { metadata  o`" ++ [233]%N ++ runes_of_ascii "`
-    , i32 u128
-`a\` , char[]msg_type , uint32 u, u32
-Packet`" ++ [28040; 24687; 31867; 22411]%N ++ runes_of_ascii "`
-    ,
-    int16
-    len`" ++ [28040; 24687; 31867; 22411]%N ++ runes_of_ascii "` ,	}
-")).
-Eval vm_compute in ("<<<M326>>>" ++ check (runes_of_ascii "options {
-a1 = '\x00';Pad=
-char[007 ] ;
-} MetaData o{
-zchar[  42] crc ,
-} /// triple
-packet matchKey { @lengthOf( u ) @tag(	65535 )
-i8i8
-    `// not a comment`,match
-    u128 as msg_type
-{10 : //	t
-zchar
-    0 : lengthOf ,3
-:uint8x
-, ""x y"" :
-msg_type , 255  :
-matchKey , } ,char[  3 //
-] // trailing space 
-As `a\`,
-@lengthOf( // c
-calculatedFrom) match //	t
-chars
-as u128{
-    // packet A { u8 x, }
-    [""a	b"" , 00/// triple
-] :
-zchar , // `tick` ""quote"" 'q'
-7 : leftPad [255 // @lengthOf(
+	// c35
+	@leftPad 
+    // c36
+    (
+
+    // c37
+    	' ' 
+      // c38
+		) 
+    // c39
+		string 
+// c40
+	asx
+        // c41
+  ,
+	    // c42
+
+	string
+
+    // c43
+  u 
+// c44
+
+@lengthOf( 
+	    // c45
+options1 
+
+    // c46
+  ) 
+      // c47
+	,
+    // c48
+    float32 
+
+// c49
+	i64_ 
+// c50
+  	@calculatedFrom( 
+        // c51
+
+""a\""b""
+    // c52
+
+	)
+	// c53
 ,
-""x y""
-, 4294967296
-    //	t
-    ,	0 ,
-    //
-    3
-// a // b
-//x
-] :
-    Packet, // `tick` ""quote"" 'q'
-[ """ ++ [128512]%N ++ runes_of_ascii """
-] : body ,
-    """ ++ [28040; 24687]%N ++ runes_of_ascii """
-:
-    Z9_ , }
-,
-} options { }
+// c54
+  	}
+// c55
 ")).
-Eval vm_compute in ("<<<M1386>>>" ++ check (runes_of_ascii "packet
-Packet
-{ MetaDataX @calculatedFrom( ""abc""), i32 zchar
-    ,
-    // c
-    @calculatedFrom( """ ++ [128512]%N ++ runes_of_ascii """ )
-    repeat x_y_z `tab	here`
-, len
-@calculatedFrom(""`tick`"" ) `{ , }` ,repeat
-char[ 7 ]	asx `
-` ,@tag(7
-//	t
-// packet A { u8 x, }
-) repeat
-int64 // " ++ [128512]%N ++ runes_of_ascii " emoji
-x// trailing space 
-, uint32 f32a
-`u8 x,`, }
-    packet uint8x{match body as u{ [ 10 ]
-    : repeatCount,
-[ 4294967296 ] :metadata
-    ,
-} ,repeat x_y_z{
-u8 MetaDataX@lengthOf( packetx )
-    `" ++ [233]%N ++ runes_of_ascii "`
-, } ,
-float32 body ,// " ++ [27880; 37322]%N ++ runes_of_ascii "
-repeat
-BodyLength string_ , char string_
-    `line1
-line2`	, @tag( 7) char[] len @calculatedFrom( """ ++ [233]%N ++ runes_of_ascii "t" ++ [233]%N ++ runes_of_ascii """) , repeat float32 _x ,
-Header uint8x
-`it's` , }
-")).
-Eval vm_compute in ("<<<M3540>>>" ++ check (runes_of_ascii "options {
-    LittleEndian = true;
+Eval vm_compute in ("<<<M1771>>>" ++ check (runes_of_ascii "// top
+options {
+    // c1
+    LittleEndian = true;// c5a
+    // c5b
     FixedStringPadFromLeft = true;
     FixedStringPadChar = '0';
+    // c13
 }
+
+// c14
 packet Trade {
     string clOrdID,
-    char[] Px,
-    u32 x,
-}
+    char[] Px,// c23
+    u32 x,// c26a
+    // c26b
+}// c27
+
 packet Reject {
+    // c30
     int32 Side2,
+    // c33
     repeat char[3] clOrdID,
-    i32 tag7,
-}
+    i32 tag7,// c42a
+    // c42b
+}// c43a
+
+// c43b
 packet Leg {
 }
+
 root packet Quote {
+    // c51
     string Side2,
     string lastPx,
+    // c57
     InSym58 {
-        int16 OrderId,
-        Reject,
+        int16 OrderId,// c62a
+        // c62b
+        Reject,// c64
         i8 Qty,
+        // c67
         i64 venue,
-        f32 Note,
-    },
+        f32 Note,// c73
+    },// c75a
+    // c75b
     char[] count,
-    zchar[9] price,
+    zchar[9] price,// c83
     u16 Qty,
+    // c86
     match Qty as Body {
+        // c91
         69 : Leg,
         48 : Trade,
+        // c99
         51 : Reject,
+        // c103
     },
-    u16 Acct @calculatedFrom(""CRC32""),
-}
-")).
-Eval vm_compute in ("<<<M910>>>" ++ check (runes_of_ascii "packet repeatCount
-    { match BodyLength as body{ 255: As ,	}	,_x @calculatedFrom(  ""x y"" ) `" ++ [233]%N ++ runes_of_ascii "` ,@calculatedFrom( ""1"" ) // @lengthOf(
-repeat uint32 A , zchar[ 00 ] x_y_z
-,  @rightPad (
-'0' )@leftPad
-( ' ' //x
-) i32 lengthOf , repeat
-// packet A { u8 x, }
-//	t
-i64 len `" ++ [28040; 24687; 31867; 22411]%N ++ runes_of_ascii "` ,
-@calculatedFrom(""packet"" ) stringy
-float , @calculatedFrom( ""{,}"" )
-    repeat
-    char[ 7
-    ]u8x `two words`
-,
-    } options
-    { int	=""a\""b"" ;
-Header	=
-    true; trueish = zchar[
-00// packet A { u8 x, }
-]; falsey = false ; Pad =
-//	t
-// `tick` ""quote"" 'q'
-zchar[
-1 ] }//
-packet T{ }
-")).
-Eval vm_compute in ("<<<M153>>>" ++ check (runes_of_ascii "packet  BodyLength { @rightPad // packet A { u8 x, }
-()
-i32 packetx
-@lengthOf( leftPad) ,  @lengthOf( MetaDataX
-    ) leftPad
-    ,
-    _x {
-match
-zchar as zchar {
-    [ // `tick` ""quote"" 'q'
-""a\\"" ]
-: crc """ ++ [28040; 24687]%N ++ runes_of_ascii """ :
-Foo ,  1 : trueish ,	42 : rootA , [ 4294967296
-// @lengthOf(
-// `tick` ""quote"" 'q'
-]
-    //	t
-    :
-    float
-    // " ++ [128512]%N ++ runes_of_ascii " emoji
-    ""a\\"": Foo ,}  ,	repeat
-float
-    leftPad, uint8x i8i8 ,char[ 255  ]As// trailing space 
-,	} ,  char[
-    // " ++ [27880; 37322]%N ++ runes_of_ascii "
-    4294967296
-] uint8x`u8 x,` , @leftPad ( )
-float32
-body `two words` , }
-")).
-Eval vm_compute in ("<<<M4314>>>" ++ check (runes_of_ascii "packet calculatedFrom {
-    // trailing space 
-    @lengthOf(crc)
-    string a1 `say ""hi""`,
-    repeat int64 float `" ++ [28040; 24687; 31867; 22411]%N ++ runes_of_ascii "`,
-    // trailing space 
-    // " ++ [128512]%N ++ runes_of_ascii " emoji
-    @calculatedFrom(""`tick`"")
-    BodyLength @calculatedFrom(""packet""),
-    char[65535] pack,
-}
-
-packet Logon {
-    u falsey,
-    repeat i8i8,
-    calculatedFrom @calculatedFrom(""" ++ [28040; 24687]%N ++ runes_of_ascii """),
-    // c
-    repeat A As,
-}
-
-MetaData uint8x {
-    matchKey T `" ++ [233]%N ++ runes_of_ascii "`,
-    o T,
-    char[00] int `crlf
-        line`,
-    char[3] pack,
-    len a1 `say ""hi""`,
+    u16 Acct @calculatedFrom(""CRC32""),// c111a
+    // c111b
 }")).
-Eval vm_compute in ("<<<M167>>>" ++ check (runes_of_ascii "root
-packet i64_{
-    packetx
-// " ++ [128512]%N ++ runes_of_ascii " emoji
-// " ++ [27880; 37322]%N ++ runes_of_ascii "
-{	string zchar // c
-@calculatedFrom(
-""`tick`""
-    )
-    `
-`
-, zchar[1 ]  metadata	`doc`	, Foo
-    @calculatedFrom(
-""CRC32""
-    )
-    ,}
-    //	t
-    ,char[]roots `crlf
-line`
-//	t
-//x
-, @calculatedFrom(""it's"" )  char
-    rootA
-    ,
-@tag( 7 )
-    charz o //x
-`it's`
-, // a // b
-char[ 007] msg_type@lengthOf(x_y_z )
-,
-    repeat //	t
-zchar[ 007 ]repeatCount `say ""hi""` , match i64_ as rootA
-{ [""abc"" ] :T }
-, repeat chars ,  }
-")).
-Eval vm_compute in ("<<<M1017>>>" ++ check (runes_of_ascii "  MetaData// `tick` ""quote"" 'q'
-zchar {packetx calculatedFrom `doc` , zchar[ 3	]
-    Z9_
-, char[ 65535 ]i64_	,
-    u64
-lengthOf `
-`, zchar[
-    // " ++ [128512]%N ++ runes_of_ascii " emoji
-    00
-    ] Pad
-`{ , }` ,
-A lengthOf
-`two words`
-    ,}  MetaData BodyLength
-// c
-// " ++ [128512]%N ++ runes_of_ascii " emoji
-{  char[
-3 // " ++ [27880; 37322]%N ++ runes_of_ascii "
-] u128
-    ,
-// `tick` ""quote"" 'q'
-/// triple
-string MetaDataX,
-u8x // " ++ [128512]%N ++ runes_of_ascii " emoji
-i64_
-`u8 x,`,/// triple
-} MetaData
-chars
-    { string Logon `{ , }`
-    ,char[
-    10] u ,
-len  repeatCount,	} 	 ")).
-Eval vm_compute in ("<<<M1339>>>" ++ check (runes_of_ascii "packet trueish { @tag(  007  )len {
-string float ,
-    // packet A { u8 x, }
-    repeat
-// c
-//	t
-Z9_ `tab	here`
-    , f32
-A @calculatedFrom(
-""CRC32"") ,	} , match
-BodyLength// " ++ [27880; 37322]%N ++ runes_of_ascii "
-as // `tick` ""quote"" 'q'
-int {1 :msg_type  , """ ++ [128512]%N ++ runes_of_ascii """ // @lengthOf(
-:
-falsey
-    // a // b
-    ,
-// " ++ [128512]%N ++ runes_of_ascii " emoji
-/// triple
-""// no comment""/// triple
-:x_y_z // @lengthOf(
-} , repeat // @lengthOf(
-i32 rootA `doc` ,  }packet asx
-{ }options// `tick` ""quote"" 'q'
-{ T
-=	""a	b"" }
-")).
-Eval vm_compute in ("<<<M160>>>" ++ check (runes_of_ascii "root packet o
-    { }	packet T{ zchar[ 4294967296
-]asx `say ""hi""` ,} MetaData f32a{f64 MetaDataX  `say ""hi""`
-    // packet A { u8 x, }
-    ,x_y_z
-    rootA`doc`
-, //	t
-u32
-repeatCount
-    /// triple
-    ,
-string T
-, u8x u`doc` ,} options {x_y_z
-    = 0	} // packet A { u8 x, }
-root packet// c
-MetaDataX { @calculatedFrom( ""abc""
-) @calculatedFrom(
-    """ ++ [128512]%N ++ runes_of_ascii """ ) @tag( 3
-) charz@lengthOf(
-Packet )
-    `line1
-line2` ,	} /// triple")).
-Eval vm_compute in ("<<<M4325>>>" ++ check (runes_of_ascii "packet Frame {
-    u8 HK,
-    u8 BK,
-    u8 TK,
-    match HK as Hdr {
-        1 : HdrA,
-        2 : HdrB,
+Eval vm_compute in ("<<<M1834>>>" ++ check (runes_of_ascii "options {
+    LittleEndian = true;
+    StringPrefixLenType = u64;
+    ArrayPrefixLenType = u8;
+    FixedStringPadChar = '0';
+}
+
+packet Reject {
+    i32 Ref,
+    repeat f64 OrderId,
+    repeat InNote12 {
+        u8 pad0,
     },
-    match BK as Body {
-        1 : BodyA,
-        2 : BodyB,
-    },
-    match TK as Trl {
-        1 : TrlA,
+    @leftPad(' ')
+    char[6] count,
+}
+
+packet Logout {
+    zchar[6] Tail,
+    repeat string venue,
+}
+
+packet Cancel {
+    u64 count,
+    repeat char[5] lastPx,
+    i64 Tail,
+    repeat InF140 {
+        repeat Logout,
+        repeat Reject,
     },
 }
 
-packet HdrA {
+root packet Trade {
+    repeat InMsgkind39 {
+        repeat Reject,
+        char[4] Px,
+    },
+    string Acct,
+    uint16 price,
+    f32 OrderId,
+    u16 x,
+    u16 clOrdID @lengthOf(Body),
+    match x as Body {
+        178 : Logout,
+        13 : Cancel,
+        174 : Reject,
+    },
+    u16 Flags @calculatedFrom(""CRC32""),
+}")).
+Eval vm_compute in ("<<<M1441>>>" ++ check (runes_of_ascii "options {
+    LittleEndian = false;
+    StringPrefixLenType = u16;
+    ArrayPrefixLenType = u32;
+}
+packet Order {
+    uint8 x,
+    repeat string venue,
+}
+packet Heartbeat {
+    i64 count,
+    zchar[1] Qty,
+    repeat InX29 {
+        InSeqno26 {
+            int64 f1,
+            char[5] Acct,
+            Order,
+        },
+        repeat InSide285 {
+            repeat Order,
+            char[10] Px,
+            zchar[9] OrderId,
+        },
+        char[] venue,
+        Order,
+    },
+    @rightPad('\x00') char[4] clOrdID,
+}
+root packet Party {
+    zchar[3] f1,
+    u32 clOrdID,
+    u32 Px @lengthOf(Body),
+    match clOrdID as Body {
+        [180, 64] : Heartbeat,
+        11 : Order,
+    },
+    u32 Side2 @calculatedFrom(""CR\
+C32""),
+}
+")).
+Eval vm_compute in ("<<<M363>>>" ++ check (runes_of_ascii "packet A {
+repeat
+    o Z9_ ,
+    @calculatedFrom( """ ++ [233]%N ++ runes_of_ascii "t" ++ [233]%N ++ runes_of_ascii """ ) @calculatedFrom(
+    ""a\\"" ) @tag( 42) match Header as
+    // packet A { u8 x, }
+    tag {
+    ""`tick`"" :
+As , [
+    ""\" ++ [233]%N ++ runes_of_ascii """ ] :
+asx[ 3
+,  ""1"", ""\n"" , 007
+,
+    ""\n"" ] :options1 ""abc"" :
+//	t
+/// triple
+falsey , 4294967296 :	metadata , } ,  @tag(4294967296) tag @calculatedFrom( """ ++ [128512]%N ++ runes_of_ascii """ ) , }
+    // `tick` ""quote"" 'q'
+    packet stringy {
+    char[]
+packetx
+`
+`,string leftPad @lengthOf(float
+    ) ,@tag( //	t
+65535 )	@lengthOf( packetx) @lengthOf( Pad )
+// trailing space 
+// " ++ [27880; 37322]%N ++ runes_of_ascii "
+repeatCount BodyLength , // a // b
+char[] A
+    @lengthOf( // packet A { u8 x, }
+a1)
+    `two words` , }
+packet falsey // " ++ [27880; 37322]%N ++ runes_of_ascii "
+{ }")).
+Eval vm_compute in ("<<<M261>>>" ++ check (runes_of_ascii "packet// " ++ [128512]%N ++ runes_of_ascii " emoji
+BodyLength {@calculatedFrom( ""it's"" ) zchar[ 0123456789] Z9_ `it's` , } packet zchar{ @lengthOf(
+rootA )@rightPad ( '0' )// " ++ [27880; 37322]%N ++ runes_of_ascii "
+repeat
+int64
+stringy
+,@lengthOf( lengthOf ) match Pad as o
+// a // b
+//x
+{ [ 10
+    , ""a\""b""] :
+BodyLength, """ ++ [233]%N ++ runes_of_ascii "t" ++ [233]%N ++ runes_of_ascii """ :zchar  3:T },
+} MetaData Logon { uint8x i64_ , } root packet
+/// triple
+// `tick` ""quote"" 'q'
+zchar {
+charz `" ++ [28040; 24687; 31867; 22411]%N ++ runes_of_ascii "` , } packet i64_
+{	u
+`two words`
+// `tick` ""quote"" 'q'
+// c
+, @calculatedFrom(""it's""
+)char[
+    // trailing space 
+    0123456789	] body`it's`
+    ,char[ 255 ]leftPad `two words` , }")).
+Eval vm_compute in ("<<<M1951>>>" ++ check (runes_of_ascii "// top
+options {
+    // c1a
+    // c1b
+    LittleEndian = true;// c5
+    ArrayPrefixLenType = u64;// c9a
+    // c9b
+    FixedStringPadFromLeft = false;
+    // c13
+}// c14a
+
+// c14b
+packet Quote {
+    // c17
+}// c18
+
+root packet Order {
+    // c22
+    i64 Side2,// c25
+    Quote,// c27a
+    // c27b
+    u32 Px,// c30
+    match Px as Body {
+        // c35
+        [119, 147] : Quote,
+    },// c45a
+    // c45b
+    u16 Flags @calculatedFrom(""CRC32""),
+    // c51
+}// c52a
+// c52b")).
+Eval vm_compute in ("<<<M1810>>>" ++ check (runes_of_ascii "options  {
+LittleEndian
+=
+
+false ;
+    StringPrefixLenType
+=
+    u32
+
+;
+    ArrayPrefixLenType 
+= u16
+;} packet
+Party	{@leftPad ( '0'	) char[
+12] Ref ,repeat
+
+    char[
+6	] 
+x ,}
+    packet	Logon
+
+    {	uint32
+clOrdID ,Party ,	}
+
+    root packet
+
+    Ack
+
+{
+    zchar[
+
+    2 
+] f1
+, u32	seqNo 
+,
+
+    u32 Side2
+@lengthOf(  Body) 
+,
+	match  seqNo  as Body 
+{
+43
+:
+
+Logon
+
+    ,	93:Party
+
+    , 
+},}
+")).
+Eval vm_compute in ("<<<M1572>>>" ++ check (runes_of_ascii "MetaData o {
+    u32 string_,
+    char[] a1 `crlf
+        line`,
+    int8 options1,
+}
+
+packet Foo {
+    @lengthOf(matchKey)
+    f32 f32a,
+    @tag(0)
+    // @lengthOf(
+    match MetaDataX as trueish {
+        //	t
+        255 : T,
+        4294967296 : pack,
+        3 : falsey,
+        ""1"" : uint8x,
+        7 : u128,
+        4294967296 : MetaDataX,
+    },
+    i32 roots,
+}")).
+Eval vm_compute in ("<<<M285>>>" ++ check (runes_of_ascii "
+MetaData o// a // b
+{ u32 string_, char[]a1
+`crlf
+line` , int8 options1 ,
+} packet
+    Foo{ @lengthOf( matchKey )f32 f32a ,
+@tag(0 ) // @lengthOf(
+match MetaDataX as trueish { //	t
+255 : T ,	4294967296 : pack
+    // a // b
+    ,	3 :falsey ,
+""1"" :uint8x ,7
+    : u128 4294967296 :
+    // " ++ [27880; 37322]%N ++ runes_of_ascii "
+    MetaDataX
+, } , i32 //
+roots
+, }")).
+Eval vm_compute in ("<<<M1860>>>" ++ check (runes_of_ascii "  // top
+  options 	 // c0a
+	  // c0b
+  	{	// c1a
+// c1b
+	LittleEndian 
+
+// c2
+=
+
+    true	// c4a
+	  // c4b
+;  // c5a
+	// c5b
+
+}	// c6
+    root // c7
+
+packet 
+// c8
+  P  // c9a
+	// c9b
+
+  { 
+// c10
+
+	repeat
+	char
+
+cs// c13
+  , // c14a
+		// c14b
+    u8 // c15
+    x // c16
+  ,  // c17
+	} ")).
+Eval vm_compute in ("<<<M1487>>>" ++ check (runes_of_ascii "packet P1 {
     u8 a,
 }
 
-packet HdrB {
-    u16 b,
+packet P2 {
+    P1,
 }
 
-packet BodyA {
-    u32 c,
+packet P3 {
+    P2,
+    P1,
 }
 
-packet BodyB {
-    u64 d,
+packet P4 {
+    repeat P3,
+    P2,
 }
 
-packet TrlA {
-    u8 e,
-}
-
-root packet Msg {
-    Frame,
-    u8 x,
-}")).
-Eval vm_compute in ("<<<M3623>>>" ++ check (runes_of_ascii "// top
-root packet Frame {
-    // c3a
-    // c3b
-    u8 K,// c6a
-    // c6b
-    Logon first,
-    // c9
+root packet P5 {
+    P4,
+    P3,
+    P1,
+    u8 K,
     match K as Body {
-        // c14
-        1 : Logon,
-        // c18
-        2 : Logout,
-        // c22
-    },// c24
+        4 : P4,
+        3 : P3,
+        2 : P2,
+        1 : P1,
+    },
+}")).
+Eval vm_compute in ("<<<M1694>>>" ++ check (runes_of_ascii "packet T {
 }
 
-packet Logon {
-    // c28a
-    // c28b
-    string user,// c31a
-    // c31b
-}// c32a
-
-// c32b
-packet Logout {
-    // c35a
-    // c35b
-    u16 reason,
-    // c38
+MetaData i8i8 {
+    calculatedFrom u128 `u8 x,`,
+    string_ a1 `" ++ [233]%N ++ runes_of_ascii "`,
+    Foo int,
+    zchar[007] chars,
+    pack x,
+    crc repeatCount,
 }
-// c39")).
-Eval vm_compute in ("<<<M1171>>>" ++ check (runes_of_ascii "root packet
-string_ {
-zchar[1
-// a // b
-// `tick` ""quote"" 'q'
-] stringy //	t
-@lengthOf(charz  )
-    `u8 x,` // " ++ [27880; 37322]%N ++ runes_of_ascii "
-,
-repeat falsey {i8 u128
-    @lengthOf(
-    u128
-//	t
+
+packet options1 {
+    @tag(1)
+    char[1] f32a,
+    _x @lengthOf(_x) ``,
+}// " ++ [128512]%N ++ runes_of_ascii " emoji")).
+Eval vm_compute in ("<<<M517>>>" ++ check (runes_of_ascii "options
+{
+matchKey = 42/// triple
+x='0' ;
 // packet A { u8 x, }
-) `line1
-line2` ,
-    float@calculatedFrom( ""a	b"" )
-// a // b
 //
-,chars
-,
-    char[
-0] Header ,},	i8i8 `// not a comment` , //
-} packet T
-    // a // b
-    { repeat //	t
-lengthOf
-,}
-")).
-Eval vm_compute in ("<<<M260>>>" ++ check (runes_of_ascii "// " ++ [27880; 37322]%N ++ runes_of_ascii "
-packet tag { repeat i64_
-/// triple
-// @lengthOf(
-{
-zchar[007 ]  Logon@calculatedFrom( ""packet""
-    ) , repeat char[]leftPad `a\`
-    ,
-    zchar[ 3
-] float , }, }packet pack //
-{
-    repeat i8
-    len `
-` ,
-    }
-root packet uint8x
-    { // packet A { u8 x, }
-@leftPad
-() @calculatedFrom( ""a\\""
-    ) @rightPad ( '\x00') repeat char[	0
-]
-T,
-    } //	t")).
-Eval vm_compute in ("<<<M1191>>>" ++ check (runes_of_ascii "
-options
-    { body // " ++ [27880; 37322]%N ++ runes_of_ascii "
-=
-0123456789} packet	tag{ o @lengthOf( packetx ) `" ++ [28040; 24687; 31867; 22411]%N ++ runes_of_ascii "` , repeat options1
-{ float64
-o `doc`, } , } root packet float {
-    // trailing space 
-    @calculatedFrom(
-    ""a	b"") //	t
-float32 BodyLength // " ++ [128512]%N ++ runes_of_ascii " emoji
-`crlf
-line`
-    ,  repeat // " ++ [128512]%N ++ runes_of_ascii " emoji
-f32a
-Header
-`say ""hi""` ,int8 falsey// `tick` ""quote"" 'q'
-`{ , }`, }
-")).
-Eval vm_compute in ("<<<M142>>>" ++ check (runes_of_ascii "options { i8i8  =
-    int64 ; charz = ""// no comment""; repeatCount ="""" ; f32a = 0 stringy ='\x00' }
-    // packet A { u8 x, }
-    options
-    {
-Logon = 255
-}
-    packet Header // c
-{} MetaData
-lengthOf{
-    // `tick` ""quote"" 'q'
-    }
-options {stringy  =false ; options1
-= true ; asx=3
-/// triple
-/// triple
-roots =
-'\x00' }
-")).
-Eval vm_compute in ("<<<M718>>>" ++ check (runes_of_ascii "packet
-metadata {
-    char[
-    0 ] Z9_
-`line1
-line2` , }
-    root packet
-chars {
-/// triple
-// @lengthOf(
-As { zchar[ 3 ] BodyLength @calculatedFrom( ""it's"") `line1
-line2` ,  }  ,
-} packet o {
-    @rightPad
-// trailing space 
-// trailing space 
-( '\x00' )
-    string
-f32a@calculatedFrom( ""it's"" ) `// not a comment` ,}")).
-Eval vm_compute in ("<<<M3335>>>" ++ check (runes_of_ascii "// top
-packet
-    // c0
-calculatedFrom
-    // c1
-{
-    // c2
-@tag(
-    // c3
-4294967296
-    // c4
-)
-    // c5
-u
-    // c6
-msg_type
-    // c7
-,
-    // c8
-char[
-    // c9
-3
-    // c10
-]
-    // c11
-crc
-    // c12
-@lengthOf(
-    // c13
-len
-    // c14
-)
-    // c15
-`u8 x,`
-    // c16
-,
-    // c17
-}
-    // c18
-")).
-Eval vm_compute in ("<<<M1565>>>" ++ check (runes_of_ascii "root packet Foo // " ++ [128512]%N ++ runes_of_ascii " emoji
-{ } options {
-    // a // b
-    tag // `tick` ""quote"" 'q'
-= //	t
-""""
-    ; u8x = zchar[0  ] }
-MetaData
-    int {zchar[ 10]
-lengthOf	`` , i64 u8x`// not a comment` ,MetaDataX pack pack// `tick` ""quote"" 'q'
-`crlf
-line`
-, Logon charz `crlf
-line`
-    ,
-    // a // b
-    }
-")).
-Eval vm_compute in ("<<<M1430>>>" ++ check (runes_of_ascii "root packet Foo // " ++ [128512]%N ++ runes_of_ascii " emoji
-{ } } options {
-    // a // b
-    tag // `tick` ""quote"" 'q'
-= //	t
-""""
-    ; u8x = zchar[0  ] }
-MetaData
-    int {zchar[ 10]
-lengthOf	`` , i64 u8x`// not a comment` ,MetaDataX pack// `tick` ""quote"" 'q'
-`crlf
-line`
-, Logon charz `crlf
-line`
-    ,
-    // a // b
-    }
-")).
-Eval vm_compute in ("<<<M1617>>>" ++ check (runes_of_ascii "root packet Foo // " ++ [128512]%N ++ runes_of_ascii " emoji
-{ } options {
-    // a // b
-    tag // `tick` ""quote"" 'q'
-= //	t
-""""
-    ; u8x = zchar[0  ] }
-MetaData
-    int {zchar[ 10]
-lengthOf	`` , i64 u8x`// not a comment` ,MetaDataX pack// `tick` ""quote"" 'q'
-`crlf
-line`
-, Logon charz `crlf
-" ++ [8232]%N ++ runes_of_ascii "line`
-    ,
-    // a // b
-    }
-")).
-Eval vm_compute in ("<<<M1541>>>" ++ check (runes_of_ascii "root packet Foo // " ++ [128512]%N ++ runes_of_ascii " emoji
-{ } options {
-    // a // b
-    tag // `tick` ""quote"" 'q'
-= //	t
-""""
-    ; u8x = zchar[0  ] }
-MetaData
-    int {zchar[ 10]
-lengthOf	`` , u8x i64`// not a comment` ,MetaDataX pack// `tick` ""quote"" 'q'
-`crlf
-line`
-, Logon charz `crlf
-line`
-    ,
-    // a // b
-    }
-")).
-Eval vm_compute in ("<<<M1574>>>" ++ check (runes_of_ascii "root packet Foo // " ++ [128512]%N ++ runes_of_ascii " emoji
-{ } options {
-    // a // b
-    tag // `tick` ""quote"" 'q'
-= //	t
-""""
-    ; u8x = zchar[0  ] }
-MetaData
-    int {zchar[ 10]
-lengthOf	`` , i64 u8x`// not a comment` ,MetaDataX pack// `tick` ""quote"" 'q'
-`crlf
-line`
- Logon charz `crlf
-line`
-    ,
-    // a // b
-    }
-")).
-Eval vm_compute in ("<<<M3491>>>" ++ check (runes_of_ascii "packet 
-MDSnapshotZZ
-{
-	u8 a , 
-}  packet OrderACK {
-    u16
-
-    b
-
-    , }
-
-packet
-HTTPServerInfo{  string s  , 
-}	root 
-packet
-FIXMsg { u8	KType
-
-    ,  MDSnapshotZZ,repeat
-
-OrderACK
-,	match 
-KType  as Body {
-	1 : HTTPServerInfo
-,
-
-    2
-	:
-
-    OrderACK  ,
-	}
-
-    ,
-}
-")).
-Eval vm_compute in ("<<<M1569>>>" ++ check (runes_of_ascii "root packet Foo // " ++ [128512]%N ++ runes_of_ascii " emoji
-{ } options {
-    // a // b
-    tag // `tick` ""quote"" 'q'
-= //	t
-""""
-    ; u8x = zchar[0  ] }
-MetaData
-    int {zchar[ 10]
-lengthOf	`` , i64 u8x`// not a comment` ,MetaDataX pack// `tick` ""quote"" 'q'
-
-, Logon charz `crlf
-line`
-    ,
-    // a // b
-    }
-")).
-Eval vm_compute in ("<<<M883>>>" ++ check (runes_of_ascii "
-packet repeatCount{	@calculatedFrom( ""\n"" )
-match BodyLength as matchKey
-// trailing space 
-// trailing space 
-{ 0123456789 : /// triple
-msg_type 4294967296 :f32a,	[""" ++ [233]%N ++ runes_of_ascii "t" ++ [233]%N ++ runes_of_ascii """, ""// no comment""
-,3 ] : Foo ,
-    65535
-:zchar	,
-// a // b
-//
-4294967296 : packetx	,
-}
-    ,	}")).
-Eval vm_compute in ("<<<M302>>>" ++ check (runes_of_ascii "packet calculatedFrom {
-    @lengthOf( zchar )	char[]// `tick` ""quote"" 'q'
-chars
-    `line1
-line2` ,string
-    Logon @calculatedFrom( ""it's""  ), matchKey `say ""hi""`, @lengthOf( T
-    // c
-    )
-x_y_z @calculatedFrom(
-    ""it's"" ) `// not a comment`	,
-    }")).
-Eval vm_compute in ("<<<M3936>>>" ++ check (runes_of_ascii "
-packet
-P1{
-u8 
-a 
-,
-} packet P2
-
-    {P1
-	, }
-packet	P3 {
-
-P2 ,
-    P1,	} packet P4{ repeat
-P3
-
-,P2 ,
-    }root
-
-packet P5
-
-    {
-
-    P4
-
-,	P3
-,
-
-P1
-
-,
-u8 K
-
-    ,match K  as
-    Body
-{ 
-4 :
-
-P4  , 3
-
-:P3 ,
-	2
-:
-
-P2	,
-1 :  P1	,
-}
-,
-}")).
-Eval vm_compute in ("<<<M3589>>>" ++ check (runes_of_ascii "options {
-}
-
-packet repeatCount {
-    Foo T,
-    _x `// not a comment`,
-    @calculatedFrom(""x y"")
-    repeat float32 uint8x `doc`,
-    char msg_type @lengthOf(stringy),
-    @lengthOf(int)
-    repeat float `two words`,
-}
-
-MetaData u8x {
-}")).
-Eval vm_compute in ("<<<M4021>>>" ++ check (runes_of_ascii "  MetaData
-tag
-
-    {
-	i8
-
-    body ,char[]
-
-tag ,
-int16
-
-metadata ,
-	// c
-
-	f64 body
-	`" ++ [28040; 24687; 31867; 22411]%N ++ runes_of_ascii "` 
-// a // b
-
-  /// triple
-  ,
-char[ // `tick` ""quote"" 'q'
-      42 ]	rootA
-
-, // a // b
-T
-metadata `say ""hi""`
-
-    ,
-    } ")).
-Eval vm_compute in ("<<<M2261>>>" ++ check (runes_of_ascii "MetaData Packet { }packet	asx  { @lengthOf( asx) falsey falsey`crlf
-line`
-,
-    }
-    packet x	{uint32// @lengthOf(
-rootA	,u32 options1 `say ""hi""` , @tag( 7
-    )// packet A { u8 x, }
-msg_type @lengthOf(
-stringy	)	, }
-
-")).
-Eval vm_compute in ("<<<M2221>>>" ++ check (runes_of_ascii "MetaData Packet { { }packet	asx  { @lengthOf( asx) falsey`crlf
-line`
-,
-    }
-    packet x	{uint32// @lengthOf(
-rootA	,u32 options1 `say ""hi""` , @tag( 7
-    )// packet A { u8 x, }
-msg_type @lengthOf(
-stringy	)	, }
-
-")).
-Eval vm_compute in ("<<<M2387>>>" ++ check (runes_of_ascii "MetaData Packet { }packet	asx  { @lengthOf( asx) falsey`crlf
-line`
-,
-    }
-    packet x	{uint32// @lengthOf(
-rootA	,u32 options1 `say ""hi""` , ?@tag( 7
-    )// packet A { u8 x, }
-msg_type @lengthOf(
-stringy	)	, }
-
-")).
-Eval vm_compute in ("<<<M2342>>>" ++ check (runes_of_ascii "MetaData Packet { }packet	asx  { @lengthOf( asx) falsey`crlf
-line`
-,
-    }
-    packet x	{uint32// @lengthOf(
-rootA	,u32 options1 `say ""hi""` , @tag( 7
-    msg_type// packet A { u8 x, }
-) @lengthOf(
-stringy	)	, }
-
-")).
-Eval vm_compute in ("<<<M2253>>>" ++ check (runes_of_ascii "MetaData Packet { }packet	asx  { @lengthOf( =) falsey`crlf
-line`
-,
-    }
-    packet x	{uint32// @lengthOf(
-rootA	,u32 options1 `say ""hi""` , @tag( 7
-    )// packet A { u8 x, }
-msg_type @lengthOf(
-stringy	)	, }
-
-")).
-Eval vm_compute in ("<<<M4267>>>" ++ check (runes_of_ascii "
-
-  MetaData
-asx
-{  /// triple
-  uint16//
-
-leftPad
-	,char[
-	4294967296] matchKey `
-`	, 
-// @lengthOf(
-		/// triple
-	u32 
-options1
-,
-	zchar[ 	 // @lengthOf(
-
-	0	]
-	falsey
-`it's`  ,char
-leftPad`u8 x,` ,
-
-}
-")).
-Eval vm_compute in ("<<<M4353>>>" ++ check (runes_of_ascii "  packet
-calculatedFrom
-	{
-	}
-	MetaData
 charz
-
-{
-Z9_ 
-
-// @lengthOf(
-	Pad	// a // b
-  	,	uint64 
-	// packet A { u8 x, }
-// a // b
-	u
-`" ++ [233]%N ++ runes_of_ascii "`  ,	char[
-00	]
-	Z9_, }	// `tick` ""quote"" 'q'
-	  options {}
-")).
-Eval vm_compute in ("<<<M1165>>>" ++ check (runes_of_ascii "options
-{
-roots = u8 f32a =
-'\x00'	BodyLength
 =
-    """ ++ [28040; 24687]%N ++ runes_of_ascii """ }MetaData// a // b
-packetx{ i32  options1,	zchar[ 1]
-u8x // @lengthOf(
-`doc` ,
-    zchar[ 7 ]	matchKey // " ++ [27880; 37322]%N ++ runes_of_ascii "
-, int8 As `crlf
-line`
-, }")).
-Eval vm_compute in ("<<<M1201>>>" ++ check (runes_of_ascii "root packet BodyLength
-    { lengthOf { char[/// triple
-42  ]
-Foo `` // trailing space 
-, u64 Foo @calculatedFrom(""x y"" //
-) ,}  ,rootA
-@lengthOf(Packet
-)
-    , }
-options
-{ Pad = 00
+// packet A { u8 x, }
+// trailing space 
+true  ; } MetaData BodyLength
+{
+uint8
+pack,zchar[ 1]float ,  float32 x_y_z x_y_z `` ,u32
+_x,i16 body  , }
+")).
+Eval vm_compute in ("<<<M412>>>" ++ check (runes_of_ascii "options
+{
+matchKey = 42/// triple
+x x='0' ;
+// packet A { u8 x, }
+//
+charz
+=
+// packet A { u8 x, }
+// trailing space 
+true  ; } MetaData BodyLength
+{
+uint8
+pack,zchar[ 1]float ,  float32 x_y_z `` ,u32
+_x,i16 body  , }
+")).
+Eval vm_compute in ("<<<M538>>>" ++ check (runes_of_ascii "options
+{
+matchKey = 42/// triple
+x='0' ;
+// packet A { u8 x, }
+//
+charz
+=
+// packet A { u8 x, }
+// trailing space 
+true  ; } MetaData BodyLength
+{
+uint8
+pack,zchar[ 1]float ,  float32 x_y_z `` ,u32
+,_x i16 body  , }
+")).
+Eval vm_compute in ("<<<M496>>>" ++ check (runes_of_ascii "options
+{
+matchKey = 42/// triple
+x='0' ;
+// packet A { u8 x, }
+//
+charz
+=
+// packet A { u8 x, }
+// trailing space 
+true  ; } MetaData BodyLength
+{
+uint8
+pack,zchar[ 1 float ,  float32 x_y_z `` ,u32
+_x,i16 body  , }
+")).
+Eval vm_compute in ("<<<M521>>>" ++ check (runes_of_ascii "options
+{
+matchKey = 42/// triple
+x='0' ;
+// packet A { u8 x, }
+//
+charz
+=
+// packet A { u8 x, }
+// trailing space 
+true  ; } MetaData BodyLength
+{
+uint8
+pack,zchar[ 1]float ,  float32 x_y_z  ,u32
+_x,i16 body  , }
+")).
+Eval vm_compute in ("<<<M511>>>" ++ check (runes_of_ascii "options
+{
+matchKey = 42/// triple
+x='0' ;
+// packet A { u8 x, }
+//
+charz
+=
+// packet A { u8 x, }
+// trailing space 
+true  ; } MetaData BodyLength
+{
+uint8
+pack,zchar[ 1]float ,   x_y_z `` ,u32
+_x,i16 body  , }
+")).
+Eval vm_compute in ("<<<M13>>>" ++ check (runes_of_ascii "packet crc {
+@tag(  0123456789// " ++ [128512]%N ++ runes_of_ascii " emoji
+) i64 uint8x , }
+MetaData i8i8 {
+    zchar[
+    65535 ] int, }	packet lengthOf  {
+// trailing space 
+//	t
+@leftPad	('0')	falsey int ,	}
+// @lengthOf(
+")).
+Eval vm_compute in ("<<<M1792>>>" ++ check (runes_of_ascii "packet A {
+    Inner {
+        u8 x `a
+                
+                b`,
+        Deep {
+            u8 y `a
+                        
+                        b`,
+        },
+    },
+}")).
+Eval vm_compute in ("<<<M723>>>" ++ check (runes_of_ascii "// c
+packet i64_ {	char[] calculatedFrom , } packet
+trueish  {@calculatedFrom(
+""a\\"" ) o { i32 falsey@lengthOf( uint8x ),
+} , } // `tick` ""quote"" 'q'
+options {// c
+Z9_ ' ' =//
 }
 ")).
-Eval vm_compute in ("<<<M4415>>>" ++ check (runes_of_ascii "packet
-    x
-{
-match
-u128
-as
-stringy	// " ++ [128512]%N ++ runes_of_ascii " emoji
-    {	// a // b
-
-[
-
-    """ ++ [28040; 24687]%N ++ runes_of_ascii """
-	    //	t
-  ,
-	42
-,
-	""// no comment""	// a // b
-    ,	""1""
-	]
-    : MetaDataX
-
-,""it's"":o 
-,  }  , } ")).
-Eval vm_compute in ("<<<M3877>>>" ++ check (runes_of_ascii "packet A {
+Eval vm_compute in ("<<<M1772>>>" ++ check (runes_of_ascii "packet A {
     match k as n {
         [
             ""a"", ""bb"", ""c c"", ""d"", ""e"",
@@ -2198,466 +933,270 @@ Eval vm_compute in ("<<<M3877>>>" ++ check (runes_of_ascii "packet A {
         2 : C,
     },
 }")).
-Eval vm_compute in ("<<<M4188>>>" ++ check (runes_of_ascii "packet A {
+Eval vm_compute in ("<<<M115>>>" ++ check (runes_of_ascii "root packet T{ }	MetaData	msg_type { i64_ //x
+i64_,  } root packet
+    // packet A { u8 x, }
+    x_y_z { }  MetaData	crc { o
+zchar`line1
+line2`
+,} packet
+x{ }")).
+Eval vm_compute in ("<<<M119>>>" ++ check (runes_of_ascii "MetaData  trueish {
+    chars	u8x // trailing space 
+,
+A chars ,i8i8 asx `tab	here`
+    ,char[ 3 ]
+body	`" ++ [233]%N ++ runes_of_ascii "`,
+    zchar[	00	]
+u128 ,
+}
+/// triple
+")).
+Eval vm_compute in ("<<<M1561>>>" ++ check (runes_of_ascii "  packet
+	A
+
+{	Inner {
+
+    match
+k
+
+as
+n
+
+    {
+
+[ 1 , 22
+
+,
+
+007
+,4
+, 
+5
+
+,  66
+, 
+7
+
+    ,8,
+9  ]
+	:
+    B	,
+	}
+,
+
+}
+
+,
+
+} ")).
+Eval vm_compute in ("<<<M1928>>>" ++ check (runes_of_ascii "packet A {
     match k as n {
         [
-            1, ""bb"", 007, ""d"", 5,
-            ""f"", 7, ""h"", 9, ""j"",
-            11, ""l""
+            1, 22, 007, 4, 5,
+            66, 7, 8
         ] : B,
         2 : C,
     },
 }")).
-Eval vm_compute in ("<<<M3447>>>" ++ check (runes_of_ascii "options
-    { LittleEndian =	true
-	;
-} 
-packet  B{ u8
-
-a
-    ,  string s
-
-,
-
-    } root
-
-packet	P	{
-
-u16	L  @lengthOf( B
-)
-,
-
-    B
-	, u8
-    t  ,
-	}
-")).
-Eval vm_compute in ("<<<M2344>>>" ++ check (runes_of_ascii "MetaData Packet { }packet	asx  { @lengthOf( asx) falsey`crlf
-line`
-,
-    }
-    packet x	{uint32// @lengthOf(
-rootA	,u32 options1 `say ""hi""` , @tag( 7")).
-Eval vm_compute in ("<<<M1208>>>" ++ check (runes_of_ascii "
-packet asx{ @tag( 10 )  u64
-_x @calculatedFrom( """ ++ [28040; 24687]%N ++ runes_of_ascii """ ) ,
-    } options
-{ i64_ = true /// triple
-packetx = u16 ; } options {
-msg_type =
-""{,}"" }")).
-Eval vm_compute in ("<<<M3655>>>" ++ check (runes_of_ascii "root packet rootA {
-    i32 MetaDataX @calculatedFrom(""CRC32"") `line1
-        lin@lengthOfe2`,
-}
-
-MetaData BodyLength {
-    u8 rootA,
-}// c")).
-Eval vm_compute in ("<<<M845>>>" ++ check (runes_of_ascii "root
-    packet
-charz
-{ @calculatedFrom( ""a	b""
-) repeat f32a options1
-`u8 x,` ,} options{ // " ++ [27880; 37322]%N ++ runes_of_ascii "
-zchar=
-    char[3 ] ;
-    }
-/// triple
-")).
-Eval vm_compute in ("<<<M3713>>>" ++ check (runes_of_ascii "packet
-
-    Logon { @tag( 42  ) @rightPad 	 // c
-		(' '
-
-)
-
-@leftPad
-    ( 
-) repeat
-trueish
-
-    {
-string
-
-T
-
-    ,	} ,  }
-
-")).
-Eval vm_compute in ("<<<M3910>>>" ++ check (runes_of_ascii "packet A {
-    u16 len @lengthOf(body) `tab
-        	x`,
-    u32 crc @calculatedFrom(""CRC32"") `tab
-        	x`,
-    string body,
-}")).
-Eval vm_compute in ("<<<M1709>>>" ++ check (runes_of_ascii "root packet /// triple
-rootA {	i32
-MetaDataX@calculatedFrom( ""CRC32"" ) `line1
-line2` , } MetaData BodyLength {
-u8
-rootA} , // c")).
-Eval vm_compute in ("<<<M1636>>>" ++ check (runes_of_ascii "root packet /// triple
-as {	i32
-MetaDataX@calculatedFrom( ""CRC32"" ) `line1
-line2` , } MetaData BodyLength {
-u8
-rootA, } // c")).
-Eval vm_compute in ("<<<M1685>>>" ++ check (runes_of_ascii "root packet /// triple
-rootA {	i32
-MetaDataX@calculatedFrom( ""CRC32"" ) `line1
-line2` , } ' ' BodyLength {
-u8
-rootA, } // c")).
-Eval vm_compute in ("<<<M1863>>>" ++ check (runes_of_ascii "packet
-    Pad // a // b
-{ i8i8 @calculatedFrom( ""a	b"") `u8 x,` ,
-} options{ float// " ++ [128512]%N ++ runes_of_ascii " emoji
-= f64 i64_
-uint8//	t
-00 }
-")).
-Eval vm_compute in ("<<<M1846>>>" ++ check (runes_of_ascii "packet
-    Pad // a // b
-{ i8i8 @calculatedFrom( ""a	b"") `u8 x,` ,
-} options{ float// " ++ [128512]%N ++ runes_of_ascii " emoji
-= = f64 i64_
-=//	t
-00 }
-")).
-Eval vm_compute in ("<<<M4058>>>" ++ check (runes_of_ascii "  options{ 
-metadata =
-
-    // @lengthOf(
-  // @lengthOf(
-    ""a	b""  u
-=  0
-;// trailing space 
-    	i8i8
-	= 0 ;
-	}
-
-")).
-Eval vm_compute in ("<<<M3801>>>" ++ check (runes_of_ascii "  packet Logon
-	{ 
-  // c
-@tag(  42 )
-
-    @rightPad(' '
-)
-    @leftPad  ( 
-) 
-repeat trueish{
-string
-T
-,	}
-
-,
-
-} ")).
-Eval vm_compute in ("<<<M4033>>>" ++ check (runes_of_ascii "packet f32a {
-    int16 int,
-}
-
-MetaData f32a {
-    char i8i8,/// triple
-    string Pad,
-    zchar f32a,
-    x T,
-}")).
-Eval vm_compute in ("<<<M3187>>>" ++ check (runes_of_ascii "MetaData zchar // c1
-{ // c2a
-  // c2b
-zchar[ // c3a
-  // c3b
-3 ]
-    // c5
-Pad // c6
-, // c7a
-  // c7b
-} // c8
-")).
-Eval vm_compute in ("<<<M764>>>" ++ check (runes_of_ascii "// c
-root packet u128	{asx ,} packet body
-    { @lengthOf(
-    i8i8 ) crc @lengthOf(
-    Header)
-    , } // c")).
-Eval vm_compute in ("<<<M2993>>>" ++ check (runes_of_ascii "packet A {
-  match k as n {
-    [1, ""bb"", 007, ""d"", 5, ""f"", 7, ""h"", 9, ""j"", 11, ""l""] : B,
-    2 : C
-  },
-}")).
-Eval vm_compute in ("<<<M1186>>>" ++ check (runes_of_ascii "//x
-options { x_y_z
-= i16// " ++ [128512]%N ++ runes_of_ascii " emoji
-charz
-    // c
-    = ""a	b""
-    ;
-// @lengthOf(
-//
-len  =	' '
-    ;}")).
-Eval vm_compute in ("<<<M3364>>>" ++ check (runes_of_ascii "packet calculatedFrom { @tag( 4294967296 ) u msg_type , char[ 3 ] crc
-// c
-@lengthOf( len ) `u8 x,` , }")).
-Eval vm_compute in ("<<<M3492>>>" ++ check (runes_of_ascii "packet FooBar {
-    u8 a,
-}
-packet foo_bar {
-    u16 b,
-}
-root packet R {
-    FooBar,
-    foo_bar,
-}
-")).
-Eval vm_compute in ("<<<M875>>>" ++ check (runes_of_ascii "
-root packet T {
-f32 pack // trailing space 
-@calculatedFrom( ""abc"" )
-`" ++ [28040; 24687; 31867; 22411]%N ++ runes_of_ascii "`
-    , /// triple
-}")).
-Eval vm_compute in ("<<<M635>>>" ++ check (runes_of_ascii "packet// trailing space 
-len
-{f32 MetaDataX @calculatedFrom(	""{,}"" )
-,
-} // packet A { u8 x, }")).
-Eval vm_compute in ("<<<M3240>>>" ++ check (runes_of_ascii "packet Logon { @tag( 42 ) @rightPad ( ' ' ) @leftPad ( ) // c
-repeat trueish { string T , } , }")).
-Eval vm_compute in ("<<<M1717>>>" ++ check (runes_of_ascii "root packet /// triple
-rootA {	i32
-MetaDataX@calculatedFrom( ""CRC32"" ) `line1
-line2` , } Met")).
-Eval vm_compute in ("<<<M2955>>>" ++ check (runes_of_ascii "packet A {
-  match k as n {
-    [1, ""bb"", 007, ""d"", 5, ""f"", 7, ""h"", 9] : B
-    2 : C
-  },
-}")).
-Eval vm_compute in ("<<<M3429>>>" ++ check (runes_of_ascii "packet
-
-    Inner {  u8 a
-    , }root
-packet  P
-
-{repeat 
-Inner
-
-items
-    ,
-u8 x , } ")).
-Eval vm_compute in ("<<<M3267>>>" ++ check (runes_of_ascii "// top
-options
-    // c0
-{
-    // c1
-u8x
-    // c2
-=
-    // c3
-3
-    // c4
-}
-    // c5
-")).
-Eval vm_compute in ("<<<M1676>>>" ++ check (runes_of_ascii "root packet /// triple
-rootA {	i32
-MetaDataX@calculatedFrom( ""CRC32"" ) `line1
-line2`")).
-Eval vm_compute in ("<<<M2021>>>" ++ check (runes_of_ascii "root
-packet crc
-    { f32a @calculatedFrom( """ ++ [233]%N ++ runes_of_ascii "t" ++ [233]%N ++ runes_of_ascii """ )
-    `say ""hi""`, lengthOf `` ,  ")).
-Eval vm_compute in ("<<<M2917>>>" ++ check (runes_of_ascii "packet A {
-  match k as n {
-    [""a"", 22, ""c c"", 4, ""e"", 66] : B,
-    2 : C
-  },
-}")).
-Eval vm_compute in ("<<<M3307>>>" ++ check (runes_of_ascii "packet o { @tag( 42 ) repeat
-// c
-x { char[ 0123456789 ] i64_ , } , } options { }")).
-Eval vm_compute in ("<<<M231>>>" ++ check (runes_of_ascii "MetaData Z9_
-    { a1
-//
-/// triple
-Z9_
-    , zchar[ 10	] x
-    , } options { }
-")).
-Eval vm_compute in ("<<<M4281>>>" ++ check (runes_of_ascii "MetaData
-    charz
-
-{
-
-char[
-
-    7
-]
-body
-    `tab	here`// " ++ [27880; 37322]%N ++ runes_of_ascii "
-    ,
-    }
-")).
-Eval vm_compute in ("<<<M2199>>>" ++ check (runes_of_ascii "root
-    // `tick` ""quote"" 'q'
-    packet As @lengthOf { trueish Packet , }
-")).
-Eval vm_compute in ("<<<M3780>>>" ++ check (runes_of_ascii "packet i8i8 {
-}
-
-options {
-    MetaDataX = ""it's""
-    asx = char[65535];
-}")).
-Eval vm_compute in ("<<<M372>>>" ++ check (runes_of_ascii "
-packet Z9_ { } // a // b
-root
-    packet roots{
-    /// triple
-    }")).
-Eval vm_compute in ("<<<M3399>>>" ++ check (runes_of_ascii "MetaData _x { // c
-zchar[ 4294967296 ] lengthOf `// not a comment` , }")).
-Eval vm_compute in ("<<<M3766>>>" ++ check (runes_of_ascii "options {
-    tag = 42
-}
-
-root packet pack {
-    zchar[007] Packet,
-}")).
-Eval vm_compute in ("<<<M2156>>>" ++ check (runes_of_ascii "false
-    // `tick` ""quote"" 'q'
-    packet As { trueish Packet , }
-")).
-Eval vm_compute in ("<<<M3183>>>" ++ check (runes_of_ascii "packet A {
-    match k as n {
-        1 : B,
+Eval vm_compute in ("<<<M1541>>>" ++ check (runes_of_ascii "packet Logon {
+    @tag(42)
+    @rightPad(' ')
+    @leftPad()
+    repeat trueish {
+        string T,
         // c
     },
 }")).
-Eval vm_compute in ("<<<M4250>>>" ++ check (runes_of_ascii "packet A  { repeat B 
-{  C { u8
-x
-    ,}
-,	D d
-
-    ,	} ,	}
+Eval vm_compute in ("<<<M654>>>" ++ check (runes_of_ascii "\ MetaData
+    // trailing space 
+    matchKey
+{ u64 chars // a // b
+,char[] lengthOf `// not a comment`
+    , //	t
+}")).
+Eval vm_compute in ("<<<M618>>>" ++ check (runes_of_ascii "MetaData
+    // trailing space 
+    matchKey
+{ u64 chars // a // b
+,lengthOf char[] `// not a comment`
+    , //	t
+}")).
+Eval vm_compute in ("<<<M75>>>" ++ check (runes_of_ascii "options { pack =0 } MetaData int{ char[	00
+    ]
+    T
+    `crlf
+line` ,  i8 string_
+,//	t
+int16
+matchKey , }
 ")).
-Eval vm_compute in ("<<<M1661>>>" ++ check (runes_of_ascii "root packet /// triple
-rootA {	i32
-MetaDataX@calculatedFrom(")).
-Eval vm_compute in ("<<<M1953>>>" ++ check (runes_of_ascii "
-@tagpacket	As { @calculatedFrom(//x
-""{,}""	)lengthOf , } 	 ")).
-Eval vm_compute in ("<<<M1921>>>" ++ check (runes_of_ascii "
-packet	As { @calculatedFrom(//x
-""{,}""	) )lengthOf , } 	 ")).
-Eval vm_compute in ("<<<M2706>>>" ++ check (runes_of_ascii "; f64 ; ' ' [ as char[] } : float32 char[] '\x00' char[]")).
-Eval vm_compute in ("<<<M518>>>" ++ check (runes_of_ascii "packet options1
-{ @lengthOf(
-x_y_z ) falsey , }
+Eval vm_compute in ("<<<M942>>>" ++ check (runes_of_ascii "packet A {
+    u16 len @lengthOf(body) `a
+
+b`,
+    u32 crc @calculatedFrom(""CRC32"") `a
+
+b`,
+    string body,
+}")).
+Eval vm_compute in ("<<<M1368>>>" ++ check (runes_of_ascii "options {
+    LittleEndian = true;
+}
+root packet P {
+    u16 a,
+    u32 Sum @calculatedFrom(""CR\
+C32""),
+}
+")).
+Eval vm_compute in ("<<<M1263>>>" ++ check (runes_of_ascii "packet calculatedFrom { @tag( 4294967296 ) // c
+u msg_type , char[ 3 ] crc @lengthOf( len ) `u8 x,` , }")).
+Eval vm_compute in ("<<<M887>>>" ++ check (runes_of_ascii "packet A {
+  match k as n {
+    [""a"", ""bb"", 007, ""d"", ""e"", 66, ""g"", ""h"", 9, ""j""] : B,
+    2 : C
+  },
+}")).
+Eval vm_compute in ("<<<M881>>>" ++ check (runes_of_ascii "packet A {
+  match k as n {
+    [1, ""bb"", 007, ""d"", 5, ""f"", 7, ""h"", 9, ""j""] : B,
+    2 : C
+  },
+}")).
+Eval vm_compute in ("<<<M1141>>>" ++ check (runes_of_ascii "packet Logon { @tag( 42 )
 // c
-")).
-Eval vm_compute in ("<<<M3700>>>" ++ check (runes_of_ascii "
-// a // b
+@rightPad ( ' ' ) @leftPad ( ) repeat trueish { string T , } , }")).
+Eval vm_compute in ("<<<M1931>>>" ++ check (runes_of_ascii "packet o {
+    @tag(42)
+    repeat x {
+        char[0123456789] i64_,
+    },
+}// c
+
+options {
+}")).
+Eval vm_compute in ("<<<M872>>>" ++ check (runes_of_ascii "packet A {
+  match k as n {
+    [1, 22, ""c c"", 4, 5, ""f"", 7, 8, ""i""] : B,
+    2 : C
+  },
+}")).
+Eval vm_compute in ("<<<M1932>>>" ++ check (runes_of_ascii "
 packet
-calculatedFrom	{
-i32
+o// c
+{  @tag( 42)  repeat
 
-_x ,  }
+x	{ char[
+
+0123456789 ] i64_
+	, 
+}	,}options
+{}
 ")).
-Eval vm_compute in ("<<<M1896>>>" ++ check (runes_of_ascii "
-	As { @calculatedFrom(//x
-""{,}""	)lengthOf , } 	 ")).
-Eval vm_compute in ("<<<M738>>>" ++ check (runes_of_ascii "options {
-float = ' '
-;
-    _x	= 4294967296 ; }")).
-Eval vm_compute in ("<<<M430>>>" ++ check (runes_of_ascii "// a // b
-packet calculatedFrom{ i32
-    _x, }")).
-Eval vm_compute in ("<<<M2812>>>" ++ check (runes_of_ascii "@tag( `tab	here` repeat int16 zchar[ uint64 )")).
-Eval vm_compute in ("<<<M1603>>>" ++ check (runes_of_ascii "root packet Foo // " ++ [128512]%N ++ runes_of_ascii " emoji
-{ } options {
-  ")).
-Eval vm_compute in ("<<<M551>>>" ++ check (runes_of_ascii "options {i64_
-    = 10}packet options1 {}")).
-Eval vm_compute in ("<<<M2125>>>" ++ check (runes_of_ascii "MetaData x
-{// " ++ [128512]%N ++ runes_of_ascii " emoji
-i16 stringy , , }")).
-Eval vm_compute in ("<<<M3461>>>" ++ check (runes_of_ascii "
+Eval vm_compute in ("<<<M814>>>" ++ check (runes_of_ascii "packet A {
+  match k as n {
+    [""a"", ""bb"", ""c c"", ""d"", ""e""] : B,
+    2 : C
+  },
+}")).
+Eval vm_compute in ("<<<M1224>>>" ++ check (runes_of_ascii "packet o { @tag( 42 ) repeat x { // c
+char[ 0123456789 ] i64_ , } , } options { }")).
+Eval vm_compute in ("<<<M830>>>" ++ check (runes_of_ascii "packet A {
+  match k as n {
+    [1, ""bb"", 007, ""d"", 5, ""f""] : B
+    2 : C
+  },
+}")).
+Eval vm_compute in ("<<<M1874>>>" ++ check (runes_of_ascii "packet
+A {	match	k
 
-  root 
-packet	P{
-	string	s,
+as n{  [  1
+    ,
+22 , 007 ,4  ] :
+
+B
+2:C	}
+,
 
     } ")).
-Eval vm_compute in ("<<<M1924>>>" ++ check (runes_of_ascii "
-packet	As { @calculatedFrom(//x
-""{,}""")).
-Eval vm_compute in ("<<<M2129>>>" ++ check (runes_of_ascii "MetaData x
-{// " ++ [128512]%N ++ runes_of_ascii " emoji
-i16 stringy , ")).
-Eval vm_compute in ("<<<M542>>>" ++ check (runes_of_ascii "packet chars
-    { repeat pack , }
-")).
-Eval vm_compute in ("<<<M4245>>>" ++ check (runes_of_ascii "packet A {
-u8 x`d" ++ [8233]%N ++ runes_of_ascii "`
-	, 	 // c" ++ [8233]%N ++ runes_of_ascii "
-
+Eval vm_compute in ("<<<M805>>>" ++ check (runes_of_ascii "packet A {
+  match k as n {
+    [""a"", 22, ""c c"", 4] : B,
+    2 : C
+  },
 }")).
-Eval vm_compute in ("<<<M3459>>>" ++ check (runes_of_ascii "root packet P {
-    string s,
+Eval vm_compute in ("<<<M808>>>" ++ check (runes_of_ascii "packet A {
+  match k as n {
+    [1, 22, ""c c"", 4] : B
+    2 : C
+  },
+}")).
+Eval vm_compute in ("<<<M800>>>" ++ check (runes_of_ascii "packet A {
+  match k as n {
+    [1, 22, 007, 4] : B
+    2 : C
+  },
+}")).
+Eval vm_compute in ("<<<M781>>>" ++ check (runes_of_ascii "packet A {
+  match k as n {
+    [1, ""bb""] : B,
+    2 : C
+  },
+}")).
+Eval vm_compute in ("<<<M1683>>>" ++ check (runes_of_ascii "MetaData M {
+    u8 x `x
+        `,
+    T t `x
+        `,
+}")).
+Eval vm_compute in ("<<<M35>>>" ++ check (runes_of_ascii "MetaData trueish { char[]chars , char[] int
+    ,}
+")).
+Eval vm_compute in ("<<<M54>>>" ++ check (runes_of_ascii "  MetaData
+u128{ uint32 lengthOf ,
+    }
+")).
+Eval vm_compute in ("<<<M1116>>>" ++ check (runes_of_ascii "MetaData zchar { zchar[ 3 ] Pad // c
+, }")).
+Eval vm_compute in ("<<<M1826>>>" ++ check (runes_of_ascii "
+packet 
+A  {
+u8 x `d" ++ [65279]%N ++ runes_of_ascii "` 
+,	// c" ++ [65279]%N ++ runes_of_ascii "
 }
 ")).
-Eval vm_compute in ("<<<M2135>>>" ++ check (runes_of_ascii "MetaData x
-{// " ++ [128512]%N ++ runes_of_ascii " emoji
-i16 str")).
-Eval vm_compute in ("<<<M1919>>>" ++ check (runes_of_ascii "
-packet	As { @calculatedFrom(")).
-Eval vm_compute in ("<<<M3731>>>" ++ check (runes_of_ascii "  options{ 
-}  /// triple
- 
-")).
-Eval vm_compute in ("<<<M704>>>" ++ check (runes_of_ascii "
-options { int	= i16 ; }
-")).
-Eval vm_compute in ("<<<M2088>>>" ++ check (runes_of_ascii "MetaData A { `u64 pack, }")).
-Eval vm_compute in ("<<<M1214>>>" ++ check (runes_of_ascii "options {leftPad =' ' }
-")).
-Eval vm_compute in ("<<<M3593>>>" ++ check (runes_of_ascii "packet
-	A
-	{  } 
+Eval vm_compute in ("<<<M1915>>>" ++ check (runes_of_ascii "
 
-// c" ++ [6158]%N ++ runes_of_ascii "
-")).
-Eval vm_compute in ("<<<M415>>>" ++ check (runes_of_ascii "// packet A { u8 x, }
-")).
-Eval vm_compute in ("<<<M2573>>>" ++ check (runes_of_ascii "packet A { x `d` y, }")).
-Eval vm_compute in ("<<<M4199>>>" ++ check (runes_of_ascii "packet A {
-}// a// b")).
-Eval vm_compute in ("<<<M4206>>>" ++ check (runes_of_ascii "packet
-	Packet{ 
-} ")).
-Eval vm_compute in ("<<<M3081>>>" ++ check (runes_of_ascii "packet A {
+  packet A {
+u8
+x `
+x`
+,
 }
-// c" ++ [5760]%N)).
-Eval vm_compute in ("<<<M2027>>>" ++ check (runes_of_ascii "root
-packet crc
 ")).
-Eval vm_compute in ("<<<M3139>>>" ++ check (runes_of_ascii "packet A {
-}// c" ++ [6158]%N)).
-Eval vm_compute in ("<<<M2568>>>" ++ check (runes_of_ascii "packet A { x, }")).
-Eval vm_compute in ("<<<M742>>>" ++ check (runes_of_ascii "packet Z9_{}")).
-Eval vm_compute in ("<<<M2538>>>" ++ check (runes_of_ascii ":,;=()[]{}")).
-Eval vm_compute in ("<<<M2427>>>" ++ check (runes_of_ascii "char[]x")).
-Eval vm_compute in ("<<<M2735>>>" ++ check (runes_of_ascii "B3{" ++ [65533; 65533; 65533]%N)).
-Eval vm_compute in ("<<<M2811>>>" ++ check (runes_of_ascii "}#.UJ")).
-Eval vm_compute in ("<<<M2500>>>" ++ check (runes_of_ascii "//x")).
-Eval vm_compute in ("<<<M2525>>>" ++ check (runes_of_ascii "007")).
-Eval vm_compute in ("<<<M2533>>>" ++ check (runes_of_ascii "__")).
+Eval vm_compute in ("<<<M1052>>>" ++ check (runes_of_ascii "packet A {
+ u8 x `d" ++ [65279]%N ++ runes_of_ascii "`, // c" ++ [65279]%N ++ runes_of_ascii "
+}")).
+Eval vm_compute in ("<<<M744>>>" ++ check (runes_of_ascii "IO" ++ [65533; 1602; 65533; 4; 26]%N ++ runes_of_ascii "^r" ++ [65533]%N ++ runes_of_ascii "yC9" ++ [65533]%N ++ runes_of_ascii "K" ++ [65533]%N ++ runes_of_ascii "=" ++ [65533; 65533]%N ++ runes_of_ascii "7" ++ [65533; 65533; 65533]%N ++ runes_of_ascii "t" ++ [65533]%N)).
+Eval vm_compute in ("<<<M225>>>" ++ check (runes_of_ascii "packet
+    matchKey{ }
+")).
+Eval vm_compute in ("<<<M1785>>>" ++ check (runes_of_ascii "
+packet
+As
+
+{
+
+}
+")).
+Eval vm_compute in ("<<<M1038>>>" ++ check (runes_of_ascii "packet A {
+}// c 	")).
+Eval vm_compute in ("<<<M1081>>>" ++ check (runes_of_ascii "options { // a
+ }")).
+Eval vm_compute in ("<<<M323>>>" ++ check (runes_of_ascii "// c
+
+
+")).
+Eval vm_compute in ("<<<M205>>>" ++ check (runes_of_ascii "
+
+")).
